@@ -8,8 +8,11 @@
 //! larger than the capacity are refused with an error (a panic is a violation), patterns of all live blocks are
 //! intact (head/tail after every op, full at free and at the end), a free of a live block is accepted, a pointer the
 //! pool never issued is refused by the pools that validate pointers and the pool stays usable.
-//! M+S cells: LockFreeMemoryPool, BumpAllocator/BumpArena (histories evaluated against coq/C07/Model.v).
-//! S-only cells: everything else (see `cells`).
+//! M+S cells: LockFreeMemoryPool, BumpAllocator/BumpArena (histories evaluated against coq/C07/Model.v), and the cells of the
+//! extension (five-level, thread-local, tiered, secure, basic, mmap); S-only cells: everything else (see `cells`).
+//! Breadth: the histories also contain housekeeping / accessor entry points (op 5), bulk requests (op 6) and requests sized
+//! around the reported remaining capacity (op 7); `c07_wide.rs` holds the deterministic threshold families, the
+//! CacheAlignedVec cell and the global secure pools (design/C07.md, "Oracle breadth").
 //!
 //! The whole run happens in a child process (a pool defect can unmap or corrupt memory the oracle then touches):
 //! the child notes the case it is working on; if it dies, the parent reports that case as the failing input.
@@ -20,13 +23,16 @@ use std::ptr::NonNull;
 use std::sync::Arc;
 use zipora::memory::{
     numa_alloc_aligned, numa_dealloc, init_numa_pools, clear_numa_pools,
-    AdaptiveFiveLevelPool, BumpAllocator, BumpArena, ConcurrencyLevel, FiveLevelPoolConfig, FixedCapacityAllocation,
+    AdaptiveFiveLevelPool, BumpAllocator, BumpArena, ConcurrencyLevel, FiveLevelPoolConfig, FiveLevelPoolHandle, FixedCapacityAllocation,
     FixedCapacityMemoryPool, FixedCapacityPool, FixedCapacityPoolConfig, HugePage, HugePageAllocator, LockFreeAllocation,
-    LockFreeMemoryPool, LockFreePool, LockFreePoolConfig, MemOffset, MemoryMappedAllocator, MemoryPool, MmapAllocation,
+    LockFreeMemoryPool, LockFreePool, LockFreePoolConfig, BackoffStrategy, MemOffset, MemoryMappedAllocator, MemoryPool, MmapAllocation,
     MutexBasedPool, NoLockingPool, PoolConfig, PooledBuffer, PooledVec, SecureMemoryPool, SecurePoolConfig, SecurePooledPtr,
     ThreadLocalAllocation, ThreadLocalMemoryPool, ThreadLocalPool, ThreadLocalPoolConfig, TieredAllocation, TieredConfig,
     TieredMemoryAllocator,
 };
+
+#[path = "c07_wide.rs"]
+mod wide;
 
 const HEADER: &str = r#"From ZV.Common Require Import Base Run.
 From ZV.C07 Require Import Model ModelFive ModelTL ModelTiered ModelSecure ModelMmap Cases.
@@ -51,6 +57,10 @@ impl Ctx {
 // ------------------------------------------------------------------------------------------------
 struct Blk { addr: usize, usable: usize, mem: bool }
 
+/// effect of a housekeeping entry point on the shadow / on the model comparison
+#[derive(Default)]
+struct HouseFx { forget_all: bool, unmodelled: bool }
+
 trait Put {
     /// None = refused with an error
     fn alloc(&mut self, id: u64, size: usize, align: usize) -> Option<Blk>;
@@ -69,10 +79,21 @@ trait Put {
     fn scope_end(&mut self) {}
     /// the request size the pool actually serves for a request of `size` (fixed-chunk pools ignore the size)
     fn effective(&self, size: usize) -> usize { size }
-    /// called once after every operation of the history (pools record their statistics here)
+    /// called once after every event of the history (pools record their statistics here)
     fn note(&mut self) {}
     /// finding class an overlap / out-of-range failure of this pool falls in, if any
     fn overlap_class(&self) -> Option<&'static str> { None }
+    /// housekeeping / accessor / secondary entry point number `k` of this pool (statistics, validate, clear, reset,
+    /// views of the RAII guards ...): no block changes hands, every live block must survive it
+    fn house(&mut self, _k: u64, _live: &[Live]) -> HouseFx { HouseFx::default() }
+    /// the pool's bulk entry point, all or nothing: None = the pool has none (the driver falls back to single requests),
+    /// Some(None) = refused as a whole
+    fn alloc_bulk(&mut self, _ids: &[u64], _sizes: &[usize]) -> Option<Option<Vec<Blk>>> { None }
+    /// bytes the pool reports as still available (requests are then sized around that number)
+    fn remaining(&self) -> Option<usize> { None }
+    /// a violation the pool wrapper noticed itself during the last call (accounting that contradicts the shadow, a view
+    /// of a guard that disagrees with the guard, foreign memory modified ...)
+    fn complaint(&mut self) -> Option<String> { None }
 }
 
 fn pat(id: u64, i: usize) -> u8 { (id.wrapping_mul(37).wrapping_add(11) as u8) ^ ((i as u32).wrapping_mul(7) as u8) }
@@ -82,90 +103,157 @@ fn positions(n: usize, full: bool) -> Vec<(usize, usize)> {
     if !full { if n <= 32 { vec![(0, n)] } else { vec![(0, 16), (n - 16, n)] } }
     else if n <= 65536 { vec![(0, n)] } else { vec![(0, 4096), (n / 2, n / 2 + 64), (n - 4096, n)] }
 }
+// (the loops below compute pat(id, i) incrementally: the dev profile of the harness is opt-level 1 with overflow checks)
 unsafe fn fill(addr: usize, n: usize, id: u64) {
-    for (a, b) in positions(n, true) { for i in a..b { *((addr + i) as *mut u8) = pat(id, i); } }
+    let k = pat(id, 0);
+    for (a, b) in positions(n, true) {
+        let s = std::slice::from_raw_parts_mut((addr + a) as *mut u8, b - a);
+        let mut x = (a as u32).wrapping_mul(7) as u8;
+        for p in s.iter_mut() { *p = k ^ x; x = x.wrapping_add(7); }
+    }
 }
 unsafe fn verify(addr: usize, n: usize, id: u64, full: bool) -> Option<usize> {
-    for (a, b) in positions(n, full) { for i in a..b { if *((addr + i) as *const u8) != pat(id, i) { return Some(i); } } }
+    let k = pat(id, 0);
+    for (a, b) in positions(n, full) {
+        let s = std::slice::from_raw_parts((addr + a) as *const u8, b - a);
+        let mut x = (a as u32).wrapping_mul(7) as u8;
+        for (i, p) in s.iter().enumerate() { if *p != k ^ x { debug_assert!(*p != pat(id, a + i)); return Some(a + i); } x = x.wrapping_add(7); }
+    }
     None
 }
 
 struct Live { id: u64, addr: usize, len: usize, mem: bool, scope: usize }
 
-/// Replays `ops` on `put`; returns the observation per op (Some(addr) / Some(0) / None) or stops at the first failure.
-fn drive(cx: &mut Ctx, cell: &str, cj: &Value, put: &mut dyn Put, ops: &[Vec<u64>]) -> Option<Vec<Option<i128>>> {
+/// one event of a history in the vocabulary of the Coq models: `[0, size, align]` allocate, `[1, k]` free the k-th live
+/// block, `[2, kind, size]` foreign pointer, `[3]` / `[4]` scope begin / end, with what the pool answered
+struct Ev { op: Vec<u64>, res: Option<i128> }
+/// what `drive` observed: the events (bulk requests expanded, capacity-relative sizes resolved, housekeeping left out)
+/// and whether an operation the models do not know changed the pool's state (then the case is not sent to Coq)
+struct Driven { ev: Vec<Ev>, unmodelled: bool }
+
+/// sizes of a bulk request `[6, n, base, step]`: base, base+step, base+2*step, base, ...
+fn bulk_sizes(op: &[u64]) -> Vec<usize> {
+    let n = (op.get(1).copied().unwrap_or(1) as usize).clamp(1, 4096);
+    let base = op.get(2).copied().unwrap_or(1); let step = op.get(3).copied().unwrap_or(0);
+    (0..n).map(|i| base.wrapping_add((i as u64 % 3).wrapping_mul(step)) as usize).collect()
+}
+
+/// Replays `ops` on `put`; returns the events with their observations (Some(addr) / Some(0) / None) or stops at the first failure.
+/// Operations: `[0, size, align]` allocate; `[1, k]` free the k-th live block; `[2, kind, size]` free a pointer the pool
+/// never issued; `[3]` / `[4]` arena scope; `[5, k]` housekeeping / accessor entry point k; `[6, n, base, step]` one bulk
+/// request of n sizes; `[7, d, align]` allocate (what the pool reports as remaining) + d - 2 bytes.
+fn drive(cx: &mut Ctx, cell: &str, cj: &Value, put: &mut dyn Put, ops: &[Vec<u64>]) -> Option<Driven> {
     let mut live: Vec<Live> = vec![];
-    let mut obs: Vec<Option<i128>> = vec![];
+    let mut ev: Vec<Ev> = vec![];
+    let mut unmodelled = false;
     let mut lo = usize::MAX; let mut hi = 0usize;
     let mut first: Option<usize> = None;
     let mut next_id = 0u64;
     let mut scope_depth = 0usize;
     macro_rules! bad { ($class:expr, $($a:tt)*) => {{ cx.sum.fail(cell, $class, cj.clone(), &format!($($a)*)); return None; }}; }
+    // a block the pool handed out for (size, align): the checks of the property, then it joins the live set
+    macro_rules! admit { ($n:expr, $blk:expr, $id:expr, $size:expr, $align:expr) => {{
+        let (n, blk, id, size, align): (usize, Blk, u64, usize, usize) = ($n, $blk, $id, $size, $align);
+        cx.sum.dist("alloc_ok");
+        let eff = put.effective(size);
+        if put.must_refuse(eff) { bad!(None, "op {}: request of {} bytes exceeds the pool's capacity but memory was handed out", n, eff); }
+        if blk.usable < eff { bad!(None, "op {}: block of {} bytes for a request of {}", n, blk.usable, eff); }
+        let al = align.max(put.cfg_align());
+        if blk.addr % al != 0 { bad!(class_misaligned(cell), "op {}: address {:#x} (request of {} bytes) is not aligned to {}", n, blk.addr, eff, al); }
+        let len = blk.usable;
+        let end = match blk.addr.checked_add(len) { Some(e) => e, None => bad!(None, "op {}: block wraps the address space", n) };
+        if len > 0 {
+            for l in &live {
+                if l.len > 0 && blk.addr < l.addr + l.len && l.addr < end {
+                    bad!(put.overlap_class(), "op {}: new block [{:#x},+{}) overlaps live block [{:#x},+{}) (allocated as #{})", n, blk.addr, len, l.addr, l.len, l.id);
+                }
+            }
+            lo = lo.min(blk.addr); hi = hi.max(end);
+            if let Some(w) = put.window() { if hi - lo > w { bad!(None, "op {}: blocks issued span {} bytes but the pool owns {}", n, hi - lo, w); } }
+            if let Some((rl, rh)) = put.abs_range() { if blk.addr < rl || end > rh { bad!(None, "op {}: block [{},+{}) outside the pool's memory [{},{})", n, blk.addr, len, rl, rh); } }
+        }
+        if first.is_none() { first = Some(blk.addr); }
+        if blk.mem && len > 0 { unsafe { fill(blk.addr, len, id); } }
+        ev.push(Ev { op: vec![0, size as u64, align as u64], res: Some(blk.addr as i128) });
+        live.push(Live { id, addr: blk.addr, len, mem: blk.mem, scope: scope_depth });
+    }}; }
+    macro_rules! single { ($n:expr, $size:expr, $align:expr) => {{
+        let (n, size, align): (usize, usize, usize) = ($n, $size, $align);
+        let id = next_id; next_id += 1;
+        match guarded(|| put.alloc(id, size, align)) {
+            Err(p) => bad!(None, "op {}: allocate({}, align {}) panicked: {}", n, size, align, p),
+            Ok(None) => { ev.push(Ev { op: vec![0, size as u64, align as u64], res: None }); cx.sum.dist("alloc_refused"); }
+            Ok(Some(blk)) => admit!(n, blk, id, size, align),
+        }
+        if let Some(e) = put.complaint() { bad!(None, "op {}: allocate({}, align {}): {}", n, size, align, e); }
+        put.note();
+    }}; }
     for (n, op) in ops.iter().enumerate() {
-        if n > 0 { put.note(); }
         let t = op.get(0).copied().unwrap_or(9);
         let a = op.get(1).copied().unwrap_or(0);
         let b = op.get(2).copied().unwrap_or(0);
         match t {
-            0 => {
-                let size = a as usize; let align = (b as usize).max(1);
-                let id = next_id; next_id += 1;
-                let r = guarded(|| put.alloc(id, size, align));
-                match r {
-                    Err(p) => bad!(None, "op {}: allocate({}, align {}) panicked: {}", n, size, align, p),
-                    Ok(None) => { obs.push(None); cx.sum.dist("alloc_refused"); }
-                    Ok(Some(blk)) => {
-                        cx.sum.dist("alloc_ok");
-                        let eff = put.effective(size);
-                        if put.must_refuse(eff) { bad!(None, "op {}: request of {} bytes exceeds the pool's capacity but memory was handed out", n, eff); }
-                        if blk.usable < eff { bad!(None, "op {}: block of {} bytes for a request of {}", n, blk.usable, eff); }
-                        let al = align.max(put.cfg_align());
-                        if blk.addr % al != 0 { bad!(class_misaligned(cell), "op {}: address {:#x} (request of {} bytes) is not aligned to {}", n, blk.addr, eff, al); }
-                        let len = blk.usable;
-                        let end = match blk.addr.checked_add(len) { Some(e) => e, None => bad!(None, "op {}: block wraps the address space", n) };
-                        if len > 0 {
-                            for l in &live {
-                                if l.len > 0 && blk.addr < l.addr + l.len && l.addr < end {
-                                    bad!(put.overlap_class(), "op {}: new block [{:#x},+{}) overlaps live block [{:#x},+{}) (allocated as #{})", n, blk.addr, len, l.addr, l.len, l.id);
-                                }
-                            }
-                            lo = lo.min(blk.addr); hi = hi.max(end);
-                            if let Some(w) = put.window() { if hi - lo > w { bad!(None, "op {}: blocks issued span {} bytes but the pool owns {}", n, hi - lo, w); } }
-                            if let Some((rl, rh)) = put.abs_range() { if blk.addr < rl || end > rh { bad!(None, "op {}: block [{},+{}) outside the pool's memory [{},{})", n, blk.addr, len, rl, rh); } }
-                        }
-                        if first.is_none() { first = Some(blk.addr); }
-                        if blk.mem && len > 0 { unsafe { fill(blk.addr, len, id); } }
-                        obs.push(Some(blk.addr as i128));
-                        live.push(Live { id, addr: blk.addr, len, mem: blk.mem, scope: scope_depth });
+            0 => single!(n, a as usize, (b as usize).max(1)),
+            7 => {
+                // a request sized around what the pool itself reports as remaining
+                if let Some(rem) = put.remaining() {
+                    let size = (rem as u64).saturating_add(a % 5).saturating_sub(2).max(1) as usize;
+                    cx.sum.dist("alloc_relative_to_remaining");
+                    single!(n, size, (b as usize).max(1));
+                }
+            }
+            6 => {
+                let sizes = bulk_sizes(op);
+                let ids: Vec<u64> = (0..sizes.len() as u64).map(|i| next_id + i).collect();
+                match guarded(|| put.alloc_bulk(&ids, &sizes)) {
+                    Err(p) => bad!(None, "op {}: bulk request of {} sizes panicked: {}", n, sizes.len(), p),
+                    Ok(None) => { for &s in &sizes { single!(n, s, 1); } }
+                    Ok(Some(None)) => {
+                        next_id += sizes.len() as u64;
+                        cx.sum.dist("bulk_refused");
+                        if let Some(e) = put.complaint() { bad!(None, "op {}: bulk request: {}", n, e); }
+                        // blocks handed out before the failing element are lost inside the pool: the models would still list them
+                        if sizes.len() > 1 { unmodelled = true; } else { ev.push(Ev { op: vec![0, sizes[0] as u64, 1], res: None }); put.note(); }
+                    }
+                    Ok(Some(Some(blks))) => {
+                        next_id += sizes.len() as u64;
+                        cx.sum.dist("bulk_ok");
+                        if blks.len() != sizes.len() { bad!(None, "op {}: bulk request of {} sizes returned {} blocks", n, sizes.len(), blks.len()); }
+                        if let Some(e) = put.complaint() { bad!(None, "op {}: bulk request: {}", n, e); }
+                        for (i, blk) in blks.into_iter().enumerate() { admit!(n, blk, ids[i], sizes[i], 1); put.note(); }
                     }
                 }
             }
             1 => {
-                if !put.supports_free() || live.is_empty() { obs.push(Some(0)); continue; }
+                if !put.supports_free() || live.is_empty() { ev.push(Ev { op: op.clone(), res: Some(0) }); put.note(); continue; }
                 let k = (a as usize) % live.len();
-                if live[k].scope != scope_depth { obs.push(Some(0)); continue; }   // never free across an arena scope
+                if live[k].scope != scope_depth { ev.push(Ev { op: op.clone(), res: Some(0) }); put.note(); continue; }   // never free across an arena scope
                 let l = live.remove(k);
                 if l.mem { if let Some(i) = unsafe { verify(l.addr, l.len, l.id, true) } {
                     bad!(None, "op {}: byte {} of live block #{} [{:#x},+{}) changed before it was freed", n, i, l.id, l.addr, l.len); } }
                 match guarded(|| put.free(l.id)) {
                     Err(p) => bad!(None, "op {}: free of live block #{} panicked: {}", n, l.id, p),
                     Ok(false) => bad!(None, "op {}: free of live block #{} ({} bytes) was reported as an error", n, l.id, l.len),
-                    Ok(true) => obs.push(Some(0)),
+                    Ok(true) => ev.push(Ev { op: op.clone(), res: Some(0) }),
                 }
+                if let Some(e) = put.complaint() { bad!(None, "op {}: free of live block #{}: {}", n, l.id, e); }
+                put.note();
             }
             2 => {
                 let size = (b as usize).max(1);
                 let lowest = if lo == usize::MAX { None } else { Some(lo) };
                 match guarded(|| put.foreign(a, size, first, lowest)) {
                     Err(p) => bad!(None, "op {}: deallocating a foreign pointer panicked: {}", n, p),
-                    Ok(None) => obs.push(Some(0)),
+                    Ok(None) => ev.push(Ev { op: op.clone(), res: Some(0) }),
                     Ok(Some(acc)) => {
                         if acc && a != 1 { bad!(None, "op {}: a pointer the pool never issued ({} bytes) was accepted by deallocate", n, size); }
-                        obs.push(if acc { Some(0) } else { None });
+                        ev.push(Ev { op: op.clone(), res: if acc { Some(0) } else { None } });
                     }
                 }
+                if let Some(e) = put.complaint() { bad!(None, "op {}: deallocating a foreign pointer: {}", n, e); }
+                put.note();
             }
-            3 => { if put.scope_begin() { scope_depth += 1; } obs.push(Some(0)); }
+            3 => { if put.scope_begin() { scope_depth += 1; } ev.push(Ev { op: op.clone(), res: Some(0) }); put.note(); }
             4 => {
                 if scope_depth > 0 {
                     for l in live.iter().filter(|l| l.scope == scope_depth) {
@@ -176,17 +264,30 @@ fn drive(cx: &mut Ctx, cell: &str, cj: &Value, put: &mut dyn Put, ops: &[Vec<u64
                     put.scope_end();
                     scope_depth -= 1;
                 }
-                obs.push(Some(0));
+                ev.push(Ev { op: op.clone(), res: Some(0) }); put.note();
             }
-            _ => obs.push(Some(0)),
+            5 => {
+                cx.sum.dist("housekeeping_ops");
+                match guarded(|| put.house(a, &live)) {
+                    Err(p) => bad!(None, "op {}: housekeeping / accessor entry point {} panicked: {}", n, a, p),
+                    Ok(fx) => {
+                        if let Some(e) = put.complaint() { bad!(None, "op {}: housekeeping / accessor entry point {}: {}", n, a, e); }
+                        if fx.forget_all { live.clear(); }
+                        if fx.unmodelled { unmodelled = true; }
+                    }
+                }
+            }
+            _ => {}
         }
-        // nothing else was disturbed
-        for l in &live {
+        // nothing else was disturbed (with many live blocks: the 32 youngest and a rotating window of 32 per operation;
+        // every block is verified in full when it is freed and at the end anyway)
+        let nl = live.len();
+        for j in 0..nl.min(64) {
+            let l = if nl <= 64 { &live[j] } else if j < 32 { &live[nl - 1 - j] } else { &live[(n * 32 + j) % nl] };
             if l.mem { if let Some(i) = unsafe { verify(l.addr, l.len, l.id, false) } {
                 bad!(None, "after op {} {:?}: byte {} of live block #{} [{:#x},+{}) changed", n, op, i, l.id, l.addr, l.len); } }
         }
     }
-    if !ops.is_empty() { put.note(); }
     while scope_depth > 0 { live.retain(|l| l.scope != scope_depth); put.scope_end(); scope_depth -= 1; }
     // final full verification, then release everything (RAII guards drop here too)
     for l in &live {
@@ -195,16 +296,21 @@ fn drive(cx: &mut Ctx, cell: &str, cj: &Value, put: &mut dyn Put, ops: &[Vec<u64
     }
     if put.supports_free() {
         while let Some(l) = live.pop() {
+            if l.mem { if let Some(i) = unsafe { verify(l.addr, l.len, l.id, true) } {
+                bad!(None, "during the final frees: byte {} of live block #{} [{:#x},+{}) changed", i, l.id, l.addr, l.len); } }
             match guarded(|| put.free(l.id)) {
                 Err(p) => bad!(None, "final free of live block #{} panicked: {}", l.id, p),
                 Ok(false) => bad!(None, "final free of live block #{} was reported as an error", l.id),
                 Ok(true) => {}
             }
-            for m in &live { if m.mem { if let Some(i) = unsafe { verify(m.addr, m.len, m.id, false) } {
-                bad!(None, "final free of #{}: byte {} of live block #{} changed", l.id, i, m.id); } } }
+            if let Some(e) = put.complaint() { bad!(None, "final free of live block #{}: {}", l.id, e); }
+            let nl = live.len();
+            for j in 0..nl.min(64) { let m = if nl <= 64 { &live[j] } else { &live[(nl - 1).saturating_sub(j * (nl / 64))] };
+                if m.mem { if let Some(i) = unsafe { verify(m.addr, m.len, m.id, false) } {
+                    bad!(None, "final free of #{}: byte {} of live block #{} changed", l.id, i, m.id); } } }
         }
     }
-    Some(obs)
+    Some(Driven { ev, unmodelled })
 }
 
 /// narrow finding classes (none recorded for misalignment at present; kept as the single place to add one)
@@ -220,37 +326,69 @@ fn five_tl_alias_class(is_tl: bool, cfg: &FiveLevelPoolConfig, ops: &[Vec<u64>])
     let al = cfg.alignment as u64;
     let mut hot = 0u64;
     for o in ops {
-        if o.get(0) != Some(&0) { continue; }
-        let size = o.get(1).copied().unwrap_or(0);
-        if size == 0 || size > u64::MAX - al { continue; }
-        let a = (size + al - 1) & !(al - 1);
-        if a > cfg.max_fast_block_size as u64 { return true; }
-        hot = hot.saturating_add(a);
-        if hot > (cfg.arena_size / 2) as u64 { return true; }
+        let sizes: Vec<u64> = match o.get(0) { Some(&0) => vec![o.get(1).copied().unwrap_or(0)], Some(&6) => bulk_sizes(o).into_iter().map(|s| s as u64).collect(), _ => continue };
+        for size in sizes {
+            if size == 0 || size > u64::MAX - al { continue; }
+            let a = (size + al - 1) & !(al - 1);
+            if a > cfg.max_fast_block_size as u64 { return true; }
+            hot = hot.saturating_add(a);
+            if hot > (cfg.arena_size / 2) as u64 { return true; }
+        }
     }
     false
 }
 
 // ---------------- LockFreeMemoryPool ----------------
-struct LfPut { pool: Arc<LockFreeMemoryPool>, msize: usize, h: HashMap<u64, (NonNull<u8>, usize)>, raii: bool, foreign_buf: Vec<u64> }
+const FOREIGN_WORDS: usize = 2048;
+fn foreign_word(i: usize) -> u64 { 0xA5A5_5A5A_C3C3_3C3Cu64 ^ (i as u64).wrapping_mul(0x9E37_79B9_7F4A_7C15) }
+struct LfPut { pool: Arc<LockFreeMemoryPool>, msize: usize, h: HashMap<u64, (NonNull<u8>, usize)>, guards: HashMap<u64, LockFreeAllocation>, raii: bool,
+               foreign_buf: Vec<u64>, complaint: Option<String> }
 fn lf_config(preset: u64, msize: usize) -> LockFreePoolConfig {
     // presets 4..7: the presets 0..3 with the non-default `zero_on_free` (blocks freed through deallocate_with_zero are scrubbed;
     // the scrub must stay inside the block, whatever its size is relative to a cache line)
+    // presets 8..11: field combinations no preset constructor produces (one CAS attempt without backoff and without statistics;
+    // zero_on_free without the SIMD switch; cache alignment requested without / with every cache layout; linear backoff)
     let mut c = match preset % 4 { 1 => LockFreePoolConfig::default(), 2 => LockFreePoolConfig::high_performance(), _ => LockFreePoolConfig::compact() };
-    if preset >= 4 { c.zero_on_free = true; c.enable_simd_optimization = true; }
+    if (4..8).contains(&preset) { c.zero_on_free = true; c.enable_simd_optimization = true; }
+    match preset {
+        8 => { c.max_cas_retries = 1; c.backoff_strategy = BackoffStrategy::None; c.enable_stats = false; }
+        9 => { c.zero_on_free = true; c.enable_simd_optimization = false; c.backoff_strategy = BackoffStrategy::Linear; }
+        10 => { c.enable_cache_alignment = true; c.cache_config = None; c.enable_huge_pages = false; c.enable_numa_awareness = false; c.zero_on_free = true; }
+        11 => { c.enable_cache_alignment = true; c.cache_config = Some(zipora::memory::CacheLayoutConfig::write_heavy()); c.enable_stats = true;
+                c.zero_on_free = true; c.enable_simd_optimization = true; c.backoff_strategy = BackoffStrategy::Exponential { max_delay_us: 1 }; }
+        _ => {}
+    }
     if msize != 0 { c.memory_size = msize; }
     c
+}
+impl LfPut {
+    fn hold(&mut self, id: u64, p: NonNull<u8>, size: usize) {
+        // with `raii`, every third block lives in the RAII guard from the start (its views are used by the oracle)
+        if self.raii && id % 3 == 0 {
+            let mut g = LockFreeAllocation::new(p, size, Arc::clone(&self.pool));
+            if g.as_ptr() != p.as_ptr() || g.size() != size || g.as_mut_slice().len() != size || g.as_mut_slice().as_mut_ptr() != p.as_ptr() {
+                self.complaint = Some(format!("LockFreeAllocation views disagree with the block: ptr {:?} size {} slice {}", g.as_ptr(), g.size(), g.as_slice().len()));
+            }
+            self.guards.insert(id, g);
+        } else { self.h.insert(id, (p, size)); }
+    }
 }
 impl Put for LfPut {
     fn alloc(&mut self, id: u64, size: usize, _align: usize) -> Option<Blk> {
         let p = if id % 5 == 4 { self.pool.allocate_bulk_simd(&[size]).ok()?.pop()? } else { self.pool.allocate(size).ok()? };
-        self.h.insert(id, (p, size));
+        self.hold(id, p, size);
         Some(Blk { addr: p.as_ptr() as usize, usable: size, mem: true })
     }
+    fn alloc_bulk(&mut self, ids: &[u64], sizes: &[usize]) -> Option<Option<Vec<Blk>>> {
+        let v = match self.pool.allocate_bulk_simd(sizes) { Ok(v) => v, Err(_) => return Some(None) };
+        if v.len() != sizes.len() { self.complaint = Some(format!("allocate_bulk_simd of {} sizes returned {} blocks", sizes.len(), v.len())); return Some(Some(vec![])); }
+        for (i, p) in v.iter().enumerate() { self.hold(ids[i], *p, sizes[i]); }
+        Some(Some(v.iter().zip(sizes.iter()).map(|(p, &s)| Blk { addr: p.as_ptr() as usize, usable: s, mem: true }).collect()))
+    }
     fn free(&mut self, id: u64) -> bool {
+        if let Some(g) = self.guards.remove(&id) { drop(g); return true; }
         let (p, size) = self.h.remove(&id).unwrap();
-        if self.raii && id % 3 == 0 { drop(LockFreeAllocation::new(p, size, Arc::clone(&self.pool))); true }
-        else if id % 3 == 1 { self.pool.deallocate_with_zero(p, size).is_ok() }
+        if id % 3 == 1 { self.pool.deallocate_with_zero(p, size).is_ok() }
         else { self.pool.deallocate(p, size).is_ok() }
     }
     fn window(&self) -> Option<usize> { Some(self.msize) }
@@ -262,24 +400,74 @@ impl Put for LfPut {
             (2, _, Some(l)) => (l + self.msize) as *mut u8,                // lowest address ever issued + capacity: certainly outside the arena
             _ => self.foreign_buf.as_mut_ptr() as *mut u8,
         };
-        Some(self.pool.deallocate(NonNull::new(p).unwrap(), size).is_ok())
+        // kinds 3.. : the same foreign memory through deallocate_with_zero, which must refuse it *and* leave it alone
+        let with_zero = kind >= 3;
+        let size = if with_zero { size.min(FOREIGN_WORDS * 8) } else { size };
+        let r = if with_zero { self.pool.deallocate_with_zero(NonNull::new(p).unwrap(), size).is_ok() } else { self.pool.deallocate(NonNull::new(p).unwrap(), size).is_ok() };
+        if let Some(i) = (0..FOREIGN_WORDS).find(|&i| self.foreign_buf[i] != foreign_word(i)) {
+            self.complaint = Some(format!("memory the pool never issued was modified (word {} of the caller's buffer) by {}", i, if with_zero { "deallocate_with_zero" } else { "deallocate" }));
+        }
+        Some(r)
     }
+    fn house(&mut self, k: u64, live: &[Live]) -> HouseFx {
+        match k % 2 {
+            0 => { if let Some(st) = self.pool.stats() { let _ = (st.allocation_rate(), st.contention_ratio(), st.memory_usage.load(std::sync::atomic::Ordering::Relaxed)); } }
+            _ => { for l in live { if let Some(g) = self.guards.get(&l.id) {
+                       if g.as_ptr() as usize != l.addr || g.size() != l.len || g.as_slice().len() != l.len || g.as_slice().as_ptr() as usize != l.addr {
+                           self.complaint = Some(format!("LockFreeAllocation of block #{} reports ptr {:?} size {}", l.id, g.as_ptr(), g.size())); } } } }
+        }
+        HouseFx::default()
+    }
+    fn complaint(&mut self) -> Option<String> { self.complaint.take() }
 }
+impl Drop for LfPut { fn drop(&mut self) { self.guards.clear(); } }
 
 // ---------------- FixedCapacityMemoryPool ----------------
-struct FcPut { h: HashMap<u64, FixedCapacityAllocation>, pool: Box<FixedCapacityMemoryPool>, cfg: FixedCapacityPoolConfig }
+struct FcPut { h: HashMap<u64, FixedCapacityAllocation>, pool: Box<FixedCapacityMemoryPool>, cfg: FixedCapacityPoolConfig, complaint: Option<String> }
+impl FcPut {
+    /// capacity accounting against the shadow (the number of guards the oracle holds): `available_capacity` is the
+    /// blocks not handed out times the block size, `has_capacity` says whether a request would be served
+    fn accounting(&mut self, what: &str) {
+        if !self.cfg.enable_stats { return; }
+        let livec = self.h.len();
+        let want = self.cfg.total_blocks.saturating_sub(livec) * self.cfg.max_block_size;
+        let got = self.pool.available_capacity();
+        if got != want { self.complaint = Some(format!("{}: available_capacity() = {} with {} of {} blocks of {} bytes handed out (expected {})", what, got, livec, self.cfg.total_blocks, self.cfg.max_block_size, want)); }
+        if let Some(st) = self.pool.stats() {
+            let act = st.active_blocks.load(std::sync::atomic::Ordering::Relaxed);
+            if act != livec { self.complaint = Some(format!("{}: stats().active_blocks = {} but {} blocks are handed out", what, act, livec)); }
+            if st.is_at_capacity(self.cfg.total_blocks) != (livec >= self.cfg.total_blocks) { self.complaint = Some(format!("{}: is_at_capacity wrong with {} live blocks", what, livec)); }
+            let _ = (st.utilization_percent(), st.success_rate());
+        }
+    }
+}
 impl Put for FcPut {
     fn alloc(&mut self, id: u64, size: usize, _align: usize) -> Option<Blk> {
-        let mut a = self.pool.allocate(size).ok()?;
+        let said = self.pool.has_capacity(size);
+        let r = self.pool.allocate(size);
+        // (has_capacity = true does not promise success: free blocks filed under a smaller class do not serve a larger one)
+        if self.cfg.enable_stats && !said && r.is_ok() {
+            self.complaint = Some(format!("has_capacity({}) = false (request above the block size or every block handed out) but allocate({}) handed out memory", size, size)); }
+        let mut a = r.ok()?;
         let blk = Blk { addr: a.as_ptr() as usize, usable: a.size(), mem: true };
-        let _ = a.as_mut_slice().len();
+        if a.as_mut_slice().len() != a.size() || a.as_slice().as_ptr() as usize != blk.addr || a.as_slice().len() != a.size() {
+            self.complaint = Some(format!("FixedCapacityAllocation views disagree: size {} slice {}", a.size(), a.as_slice().len())); }
         self.h.insert(id, a);
+        self.accounting("after allocate");
         Some(blk)
     }
-    fn free(&mut self, id: u64) -> bool { self.h.remove(&id); true }
+    fn free(&mut self, id: u64) -> bool { self.h.remove(&id); self.accounting("after free"); true }
     fn window(&self) -> Option<usize> { Some(self.pool.total_capacity()) }
     fn must_refuse(&self, size: usize) -> bool { size > self.cfg.max_block_size }
     fn cfg_align(&self) -> usize { self.cfg.alignment }
+    fn remaining(&self) -> Option<usize> { if self.cfg.enable_stats { Some(self.pool.available_capacity().min(self.cfg.max_block_size)) } else { None } }
+    fn house(&mut self, _k: u64, live: &[Live]) -> HouseFx {
+        self.accounting("accessors");
+        for l in live { if let Some(a) = self.h.get(&l.id) { if a.as_ptr() as usize != l.addr || a.size() != l.len || a.as_slice().len() != l.len {
+            self.complaint = Some(format!("FixedCapacityAllocation of block #{} reports ptr {:?} size {}", l.id, a.as_ptr(), a.size())); } } }
+        HouseFx::default()
+    }
+    fn complaint(&mut self) -> Option<String> { self.complaint.take() }
 }
 impl Drop for FcPut { fn drop(&mut self) { self.h.clear(); } }
 fn fc_config(preset: u64, mbs: usize, blocks: usize, align: usize, flags: u64) -> FixedCapacityPoolConfig {
@@ -294,21 +482,58 @@ fn fc_config(preset: u64, mbs: usize, blocks: usize, align: usize, flags: u64) -
 }
 
 // ---------------- BumpAllocator / BumpArena ----------------
-struct BumpPut { scopes: Vec<zipora::memory::bump::BumpScope<'static>>, arena: Option<Box<BumpArena>>, plain: Option<BumpAllocator>, cap: usize }
+use zipora::memory::bump::{BumpScope, BumpVec};
+#[repr(align(64))] #[allow(dead_code)] struct Al64([u8; 64]);
+enum BVec { U64(BumpVec<'static, u64>, usize), U8(BumpVec<'static, u8>, usize) }
+struct BumpPut { scopes: Vec<BumpScope<'static>>, vecs: Vec<BVec>, arena: Option<Box<BumpArena>>, plain: Option<Box<BumpAllocator>>, cap: usize, complaint: Option<String> }
 impl Put for BumpPut {
-    fn alloc(&mut self, _id: u64, size: usize, align: usize) -> Option<Blk> {
-        let p = if let Some(s) = self.scopes.last() {
-                    if size == 8 && align == 8 { s.alloc::<u64>().map(|p| p.cast::<u8>()) }
-                    else if align == 4 && size % 4 == 0 { s.alloc_slice::<u32>(size / 4).map(|p| p.cast::<u8>()) }
-                    else { s.alloc_bytes(size, align) } }
-                else if let Some(a) = &self.arena {
-                    if size == 8 && align == 8 { a.alloc::<u64>().map(|p| p.cast::<u8>()) }
-                    else if align == 4 && size % 4 == 0 { a.alloc_slice::<u32>(size / 4).map(|p| p.cast::<u8>()) }
-                    else { a.alloc_bytes(size, align) } }
-                else { let a = self.plain.as_ref().unwrap();
-                    if size == 8 && align == 8 { a.alloc::<u64>().map(|p| p.cast::<u8>()) }
-                    else if align == 4 && size % 4 == 0 { a.alloc_slice::<u32>(size / 4).map(|p| p.cast::<u8>()) }
-                    else { a.alloc_bytes(size, align) } }.ok()?;
+    fn alloc(&mut self, id: u64, size: usize, align: usize) -> Option<Blk> {
+        // entry point by (size, align, id): a typed allocation where (size, align) is the layout of a type, a slice where
+        // the size is a multiple of the element, a BumpVec on the plain allocator, raw bytes otherwise - all of them must
+        // behave like alloc_bytes(size, align)
+        let sel = id % 4;
+        macro_rules! via { ($a:expr) => {{ let a = $a;
+            if align == 8 && size > (1usize << 60) {
+                // a slice whose byte size overflows: must be an error
+                match a.alloc_slice::<u64>(size) { Ok(_) => { self.complaint = Some(format!("alloc_slice::<u64>({}) handed out memory although {} * 8 bytes overflow", size, size)); Err(()) } Err(_) => Err(()) } }
+            else if size == 0 && align == 1 && sel == 1 { a.alloc::<()>().map(|p| p.cast::<u8>()).map_err(|_| ()) }
+            else if size == 1 && align == 1 && sel == 1 { a.alloc::<u8>().map(|p| p.cast::<u8>()).map_err(|_| ()) }
+            else if size == 2 && align == 2 { a.alloc::<u16>().map(|p| p.cast::<u8>()).map_err(|_| ()) }
+            else if size == 4 && align == 4 && sel == 0 { a.alloc::<u32>().map(|p| p.cast::<u8>()).map_err(|_| ()) }
+            else if size == 8 && align == 8 { a.alloc::<u64>().map(|p| p.cast::<u8>()).map_err(|_| ()) }
+            else if size == 16 && align == std::mem::align_of::<u128>() { a.alloc::<u128>().map(|p| p.cast::<u8>()).map_err(|_| ()) }
+            else if size == 3 && align == 1 { a.alloc::<[u8; 3]>().map(|p| p.cast::<u8>()).map_err(|_| ()) }
+            else if size == 64 && align == 64 { a.alloc::<Al64>().map(|p| p.cast::<u8>()).map_err(|_| ()) }
+            else if align == 4 && size % 4 == 0 { a.alloc_slice::<u32>(size / 4).map(|p| p.cast::<u8>()).map_err(|_| ()) }
+            else if align == 2 && size % 2 == 0 { a.alloc_slice::<u16>(size / 2).map(|p| p.cast::<u8>()).map_err(|_| ()) }
+            else if align == 8 && size % 8 == 0 && sel == 2 { a.alloc_slice::<u64>(size / 8).map(|p| p.cast::<u8>()).map_err(|_| ()) }
+            else if align == 1 && sel == 3 { a.alloc_slice::<u8>(size).map(|p| p.cast::<u8>()).map_err(|_| ()) }
+            else { a.alloc_bytes(size, align).map_err(|_| ()) } }}; }
+        let p = if let Some(s) = self.scopes.last() { via!(s) }
+                else if let Some(a) = &self.arena { via!(a) }
+                else {
+                    let a: &'static BumpAllocator = unsafe { &*(self.plain.as_ref().unwrap().as_ref() as *const BumpAllocator) };
+                    let can = a.can_allocate(size, align);
+                    let overflowing = align == 8 && size > (1usize << 60);
+                    let r = if align == 8 && size % 8 == 0 && size > 0 && size <= (1 << 20) && sel == 3 {
+                                // a BumpVec of size / 8 words: fill it, take one off, put it back
+                                match BumpVec::<u64>::new_in(a, size / 8) { Err(_) => Err(()), Ok(mut v) => {
+                                    let n = size / 8;
+                                    for i in 0..n { if v.push(i as u64).is_err() { self.complaint = Some(format!("BumpVec of capacity {} refused push #{}", n, i)); } }
+                                    if v.push(0).is_ok() { self.complaint = Some(format!("BumpVec of capacity {} accepted push #{}", n, n)); }
+                                    if v.pop() != Some(n as u64 - 1) || v.push(7).is_err() || v.len() != n || v.capacity() != n || v.is_empty() { self.complaint = Some("BumpVec pop / push / len disagree".to_string()); }
+                                    let p = NonNull::new(v.as_mut_slice().as_mut_ptr() as *mut u8).unwrap();
+                                    self.vecs.push(BVec::U64(v, p.as_ptr() as usize)); Ok(p) } } }
+                            else if align == 1 && size > 0 && size <= (1 << 20) && sel == 2 {
+                                match BumpVec::<u8>::new_in(a, size) { Err(_) => Err(()), Ok(mut v) => {
+                                    for i in 0..size { if v.push(i as u8).is_err() { self.complaint = Some(format!("BumpVec of capacity {} refused push #{}", size, i)); } }
+                                    let p = NonNull::new(v.as_mut_slice().as_mut_ptr()).unwrap();
+                                    self.vecs.push(BVec::U8(v, p.as_ptr() as usize)); Ok(p) } } }
+                            else { via!(a) };
+                    if size > 0 && align.is_power_of_two() && !overflowing && can != r.is_ok() {
+                        self.complaint = Some(format!("can_allocate({}, {}) = {} but the allocation {}", size, align, can, if r.is_ok() { "succeeded" } else { "was refused" })); }
+                    r
+                }.ok()?;
         Some(Blk { addr: p.as_ptr() as usize, usable: size, mem: true })
     }
     fn free(&mut self, _id: u64) -> bool { true }
@@ -317,35 +542,69 @@ impl Put for BumpPut {
     fn must_refuse(&self, size: usize) -> bool { size > self.cap }
     fn scope_begin(&mut self) -> bool {
         match &self.arena {
-            Some(a) => { let s: zipora::memory::bump::BumpScope<'_> = a.scope();
-                         self.scopes.push(unsafe { std::mem::transmute::<_, zipora::memory::bump::BumpScope<'static>>(s) }); true }
+            Some(a) => { let s: BumpScope<'_> = a.scope();
+                         self.scopes.push(unsafe { std::mem::transmute::<_, BumpScope<'static>>(s) }); true }
             None => false,
         }
     }
     fn scope_end(&mut self) { self.scopes.pop(); }
+    fn remaining(&self) -> Option<usize> {
+        if let Some(s) = self.scopes.last() { Some(s.stats().remaining_bytes) }
+        else if let Some(a) = &self.arena { Some(a.stats().remaining_bytes) }
+        else { self.plain.as_ref().map(|a| a.remaining_bytes()) }
+    }
+    fn house(&mut self, k: u64, _live: &[Live]) -> HouseFx {
+        let st = if let Some(s) = self.scopes.last() { Some(s.stats()) } else if let Some(a) = &self.arena { Some(a.stats()) } else { None };
+        let (capacity, remaining, allocated) = match (&st, &self.plain) {
+            (Some(st), _) => { let _ = (st.utilization(), st.is_nearly_full()); (st.capacity, st.remaining_bytes, st.allocated_bytes) }
+            (None, Some(a)) => (a.capacity(), a.remaining_bytes(), a.allocated_bytes()),
+            _ => return HouseFx::default() };
+        if capacity != self.cap || remaining > self.cap || allocated > self.cap as u64 {
+            self.complaint = Some(format!("statistics of a {}-byte bump allocator: capacity {} remaining {} allocated {}", self.cap, capacity, remaining, allocated)); }
+        for v in &self.vecs { match v {
+            BVec::U64(v, a) => { if v.as_slice().as_ptr() as usize != *a || v.len() != v.capacity() { self.complaint = Some("BumpVec moved or lost elements".to_string()); } }
+            BVec::U8(v, a) => { if v.as_slice().as_ptr() as usize != *a || v.len() != v.capacity() { self.complaint = Some("BumpVec moved or lost elements".to_string()); } } } }
+        if k % 3 == 2 && self.scopes.is_empty() { if let Some(a) = &self.plain {
+            // reset: every block issued so far is given up, the allocator starts over
+            self.vecs.clear();
+            unsafe { a.reset(); }
+            if a.remaining_bytes() != self.cap || a.allocated_bytes() != 0 { self.complaint = Some(format!("after reset: remaining {} allocated {}", a.remaining_bytes(), a.allocated_bytes())); }
+            return HouseFx { forget_all: true, unmodelled: true };
+        } }
+        HouseFx::default()
+    }
+    fn complaint(&mut self) -> Option<String> { self.complaint.take() }
 }
-impl Drop for BumpPut { fn drop(&mut self) { while self.scopes.pop().is_some() {} } }
+impl Drop for BumpPut { fn drop(&mut self) { self.vecs.clear(); while self.scopes.pop().is_some() {} } }
 
 // ---------------- five-level family (offsets, memory not reachable through the API) ----------------
 enum Five { L1(NoLockingPool), L2(MutexBasedPool), L3(LockFreePool), L4(ThreadLocalPool), L5(FixedCapacityPool), Ad(AdaptiveFiveLevelPool) }
-struct FivePut { p: Five, cfg: FiveLevelPoolConfig, cap: usize, h: HashMap<u64, (MemOffset, usize)>, alias: bool, stats: Vec<(usize, usize, Option<usize>)> }
+struct FivePut { p: Five, cfg: FiveLevelPoolConfig, cap: usize, h: HashMap<u64, (MemOffset, usize)>, alias: bool, stats: Vec<(usize, usize, Option<usize>)>,
+                 // AdaptiveFiveLevelPool::get_handle(): a cloneable handle on the same pool (levels 2..4); every other request goes through it
+                 handle: Option<FiveLevelPoolHandle>, complaint: Option<String> }
 fn off_value(o: &MemOffset) -> usize {
     let s = format!("{:?}", o);
     s.chars().filter(|c| c.is_ascii_digit()).collect::<String>().parse::<usize>().unwrap_or(usize::MAX)
 }
 impl Put for FivePut {
     fn alloc(&mut self, id: u64, size: usize, _align: usize) -> Option<Blk> {
-        let r = match &mut self.p { Five::L1(p) => p.alloc(size), Five::L2(p) => p.alloc(size), Five::L3(p) => p.alloc(size),
-                                    Five::L4(p) => p.alloc(size), Five::L5(p) => p.alloc(size), Five::Ad(p) => p.alloc(size) };
+        let r = match (&self.handle, id % 2) { (Some(h), 1) => h.clone().alloc(size), _ =>
+                match &mut self.p { Five::L1(p) => p.alloc(size), Five::L2(p) => p.alloc(size), Five::L3(p) => p.alloc(size),
+                                    Five::L4(p) => p.alloc(size), Five::L5(p) => p.alloc(size), Five::Ad(p) => p.alloc(size) } };
         let o = r.ok()?;
         let v = off_value(&o);
+        // MemOffset is a plain value: a copy compares equal, two live blocks compare equal only at the same offset
+        let copy = o.clone();
+        if copy != o { self.complaint = Some("a copy of a MemOffset does not compare equal to it".to_string()); }
+        for (q, _) in self.h.values() { if (*q == o) != (off_value(q) == v) { self.complaint = Some(format!("MemOffset equality disagrees with the offsets {} / {}", off_value(q), v)); } }
         self.h.insert(id, (o, size));
         Some(Blk { addr: v, usable: size, mem: false })
     }
     fn free(&mut self, id: u64) -> bool {
         let (o, size) = self.h.remove(&id).unwrap();
+        match (&self.handle, id % 3) { (Some(h), 1) => h.free(o, size), _ =>
         match &mut self.p { Five::L1(p) => p.free(o, size), Five::L2(p) => p.free(o, size), Five::L3(p) => p.free(o, size),
-                            Five::L4(p) => p.free(o, size), Five::L5(p) => p.free(o, size), Five::Ad(p) => p.free(o, size) }.is_ok()
+                            Five::L4(p) => p.free(o, size), Five::L5(p) => p.free(o, size), Five::Ad(p) => p.free(o, size) } }.is_ok()
     }
     fn abs_range(&self) -> Option<(usize, usize)> { Some((0, self.cap)) }
     fn must_refuse(&self, size: usize) -> bool { size > self.cap }
@@ -357,74 +616,169 @@ impl Put for FivePut {
                                         Five::L4(p) => (p.stats(), None), Five::L5(p) => (p.stats(), Some(p.remaining_capacity())), Five::Ad(p) => (p.stats(), None) };
         self.stats.push((st.used_memory, st.fragment_size, rem));
     }
+    fn remaining(&self) -> Option<usize> { match &self.p { Five::L5(p) => Some(p.remaining_capacity()), _ => None } }
+    fn house(&mut self, _k: u64, _live: &[Live]) -> HouseFx {
+        let st = match &self.p { Five::L1(p) => p.stats(), Five::L2(p) => p.stats(), Five::L3(p) => p.stats(), Five::L4(p) => p.stats(), Five::L5(p) => p.stats(), Five::Ad(p) => p.stats() };
+        let _ = (st.utilization(), st.fragmentation_ratio());
+        if let Five::L5(p) = &self.p {
+            if p.is_at_capacity() != (p.remaining_capacity() == 0) { self.complaint = Some("is_at_capacity() disagrees with remaining_capacity()".to_string()); }
+            if p.remaining_capacity() > self.cap { self.complaint = Some(format!("remaining_capacity() = {} of {}", p.remaining_capacity(), self.cap)); }
+        }
+        if let Some(h) = &self.handle { let hs = h.stats(); if hs.used_memory != st.used_memory || hs.fragment_size != st.fragment_size {
+            self.complaint = Some(format!("the handle reports used_memory {} / fragment_size {}, the pool {} / {}", hs.used_memory, hs.fragment_size, st.used_memory, st.fragment_size)); } }
+        HouseFx::default()
+    }
+    fn complaint(&mut self) -> Option<String> { self.complaint.take() }
 }
-fn five_config(preset: u64, align: usize, cap: usize, fast: usize, arena: usize, fixed: usize) -> FiveLevelPoolConfig {
-    match preset {
+fn five_config(preset: u64, align: usize, cap: usize, fast: usize, arena: usize, fixed: usize, flags: u64) -> FiveLevelPoolConfig {
+    let mut c = match preset {
         1 => FiveLevelPoolConfig::default(),
         2 => FiveLevelPoolConfig::performance_optimized(),
         3 => FiveLevelPoolConfig::memory_optimized(),
         4 => FiveLevelPoolConfig::realtime(),
         _ => FiveLevelPoolConfig { max_fast_block_size: fast, alignment: align, initial_capacity: cap, arena_size: arena,
                                    fixed_capacity: if fixed > 0 { Some(fixed) } else { None }, ..FiveLevelPoolConfig::memory_optimized() },
-    }
+    };
+    // the fields no preset combination covers ("flags"; absent = 0 = as before): cache / NUMA / huge-page switches, skip-list depth
+    if flags & 1 != 0 { c.enable_cache_alignment = !c.enable_cache_alignment; }
+    if flags & 2 != 0 { c.cache_config = if c.cache_config.is_some() { None } else { Some(zipora::memory::CacheLayoutConfig::random()) }; }
+    if flags & 4 != 0 { c.enable_numa_awareness = !c.enable_numa_awareness; }
+    if flags & 8 != 0 { c.enable_huge_pages = !c.enable_huge_pages; c.huge_page_threshold = 1; }
+    if flags & 16 != 0 { c.max_skip_levels = (flags >> 8) as usize % 3; }
+    c
 }
 
 // ---------------- ThreadLocalMemoryPool ----------------
-struct TlPut { h: HashMap<u64, ThreadLocalAllocation>, pool: Arc<ThreadLocalMemoryPool> }
+struct TlPut { h: HashMap<u64, ThreadLocalAllocation>, pool: Arc<ThreadLocalMemoryPool>,
+               // a second pool object on the same thread: it shares the thread's cache with the first one
+               pool2: Option<Arc<ThreadLocalMemoryPool>>, complaint: Option<String> }
 impl Put for TlPut {
     fn alloc(&mut self, id: u64, size: usize, _align: usize) -> Option<Blk> {
-        let mut a = self.pool.allocate(size).ok()?;
+        let pool = match (&self.pool2, id % 2) { (Some(p), 1) => p, _ => &self.pool };
+        let mut a = pool.allocate(size).ok()?;
         let blk = Blk { addr: a.as_ptr() as usize, usable: a.size(), mem: true };
-        let _ = a.as_mut_slice().len();
+        if a.as_mut_slice().len() != a.size() || a.as_slice().as_ptr() as usize != blk.addr || a.as_slice().len() != a.size() {
+            self.complaint = Some(format!("ThreadLocalAllocation views disagree: size {} slice {}", a.size(), a.as_slice().len())); }
         self.h.insert(id, a);
         Some(blk)
     }
     fn free(&mut self, id: u64) -> bool { self.h.remove(&id); true }
     fn cfg_align(&self) -> usize { 8 }
+    fn house(&mut self, k: u64, live: &[Live]) -> HouseFx {
+        match k % 3 {
+            0 => { for p in std::iter::once(&self.pool).chain(self.pool2.iter()) {
+                       let _ = p.memory_usage(); if let Some(st) = p.stats() { let _ = (st.hit_ratio(), st.locality_score()); } } }
+            1 => { for l in live { if let Some(a) = self.h.get(&l.id) { if a.as_ptr() as usize != l.addr || a.size() != l.len || a.as_slice().len() != l.len {
+                       self.complaint = Some(format!("ThreadLocalAllocation of block #{} reports ptr {:?} size {}", l.id, a.as_ptr(), a.size())); } } } }
+            _ => { // "clear thread-local caches (for cleanup)" while blocks are live: they must stay valid and disjoint from later ones
+                   self.pool.clear_caches();
+                   return HouseFx { forget_all: false, unmodelled: true }; }
+        }
+        HouseFx::default()
+    }
+    fn complaint(&mut self) -> Option<String> { self.complaint.take() }
 }
 impl Drop for TlPut { fn drop(&mut self) { self.h.clear(); self.pool.clear_caches(); } }
 
 // ---------------- SecureMemoryPool ----------------
-struct SecPut { h: HashMap<u64, SecurePooledPtr>, pool: Arc<SecureMemoryPool>, chunk: usize, align: usize, bulk: bool,
+struct SecPut { h: HashMap<u64, SecurePooledPtr>, pool: Option<Arc<SecureMemoryPool>>, chunk: usize, align: usize, bulk: bool,
                 // model comparison: chunk data address -> serial, observation of the current op, of all ops
                 serials: HashMap<usize, u64>, pending: Vec<Option<i64>>, rec: Vec<Vec<Option<i64>>>,
                 // a copy of the record of the chunk given back by the most recent guard drop (for the double-free op)
-                stale: Option<(usize, zipora::memory::secure_pool::SecureChunk)> }
+                stale: Option<(usize, zipora::memory::secure_pool::SecureChunk)>,
+                unmodelled: bool, complaint: Option<String> }
+fn sec_config(c: &Value) -> SecurePoolConfig {
+    let mut cfg = match u(c, "preset") { 1 => SecurePoolConfig::small_secure(), 2 => SecurePoolConfig::medium_secure(), 3 => SecurePoolConfig::large_secure(),
+        4 => SecurePoolConfig::default(),   // chunk size 0, alignment 0: the constructor must refuse it
+        _ => SecurePoolConfig::new(u(c, "chunk") as usize, u(c, "maxchunks") as usize, u(c, "align") as usize).with_local_cache_size(u(c, "lcache") as usize).with_zero_on_alloc(u(c, "flags") & 1 != 0) };
+    // the builder methods on top of the preset / constructor ("opts" bit mask; absent = 0 = the configuration as before)
+    let o = u(c, "opts");
+    if o & 1 != 0 { cfg = cfg.with_zero_on_free(false); }
+    if o & 2 != 0 { cfg = cfg.with_simd_ops(false); }
+    if o & 4 != 0 { cfg = cfg.with_simd_threshold(1); }
+    if o & 8 != 0 { cfg = cfg.with_simd_threshold(4096); }
+    if o & 16 != 0 { cfg = cfg.with_cache_alignment(false); }
+    if o & 32 != 0 { cfg = cfg.with_cache_config(None); }
+    if o & 64 != 0 { cfg = cfg.with_access_pattern([zipora::memory::AccessPattern::Sequential, zipora::memory::AccessPattern::Random, zipora::memory::AccessPattern::WriteHeavy,
+                                                   zipora::memory::AccessPattern::ReadHeavy, zipora::memory::AccessPattern::Mixed][((o >> 16) % 5) as usize]); }
+    if o & 128 != 0 { cfg = cfg.with_numa_awareness(false); }
+    if o & 256 != 0 { cfg = cfg.with_hot_cold_separation(false).with_hot_data_threshold(1); }
+    if o & 512 != 0 { cfg = cfg.with_huge_pages(true).with_huge_page_threshold(1); }
+    if o & 1024 != 0 { cfg = cfg.with_guard_pages(true); }
+    if o & 2048 != 0 { cfg = cfg.with_batch_size(1).with_prefetch_distance(1); }
+    if o & 4096 != 0 { cfg = cfg.with_zero_on_alloc(true); }
+    if o & 8192 != 0 { let a = cfg.alignment; cfg = cfg.with_alignment(a.max(1) * 2); }
+    cfg
+}
 impl SecPut {
     fn serial(&mut self, addr: usize) -> i64 { let n = self.serials.len() as u64; *self.serials.entry(addr).or_insert(n) as i64 }
     fn known(&self, addr: usize) -> i64 { self.serials.get(&addr).map(|&v| v as i64).unwrap_or(-1) }
     /// the whole bookkeeping state through the inspectors: local cache and shared stack (top first), active table size
     fn dump(&self) -> Vec<Option<i64>> {
         let mut v = vec![];
-        let cache = self.pool.verif_local_cache_chunks();
+        let Some(pool) = &self.pool else { return v };
+        let cache = pool.verif_local_cache_chunks();
         v.push(Some(cache.len() as i64));
         for a in cache.iter().rev() { v.push(Some(self.known(*a))); }
         let mut stack = vec![];
-        let mut node = self.pool.verif_stack_head();
-        while node != 0 && stack.len() < 100000 { let (next, data) = unsafe { self.pool.verif_stack_node(node) }; stack.push(data); node = next; }
+        let mut node = pool.verif_stack_head();
+        while node != 0 && stack.len() < 100000 { let (next, data) = unsafe { pool.verif_stack_node(node) }; stack.push(data); node = next; }
         v.push(Some(stack.len() as i64));
         for a in &stack { v.push(Some(self.known(*a))); }
-        v.push(Some(self.pool.verif_active_len() as i64));
+        v.push(Some(pool.verif_active_len() as i64));
         v
+    }
+    fn views(&mut self, p: &mut SecurePooledPtr) {
+        let addr = p.as_ptr() as usize;
+        if p.as_mut_slice().len() != p.size() || p.as_slice().len() != p.size() || p.as_slice().as_ptr() as usize != addr || p.as_non_null().map(|q| q.as_ptr() as usize) != Some(addr) {
+            self.complaint = Some(format!("SecurePooledPtr views disagree: size {} slice {}", p.size(), p.as_slice().len())); }
+        if let Err(e) = p.validate() { self.complaint = Some(format!("validate() of a block just handed out: {}", e)); }
     }
 }
 impl Put for SecPut {
     fn alloc(&mut self, id: u64, _size: usize, _align: usize) -> Option<Blk> {
-        let r = if self.bulk && id % 4 == 0 { self.pool.allocate_bulk_with_prefetch(&[self.chunk]).ok().and_then(|mut v| v.pop()) }
-                else if id % 4 == 1 { self.pool.allocate_with_hint(true).ok() } else { self.pool.allocate().ok() };
+        let pool = self.pool.clone()?;
+        let r = if self.bulk && id % 4 == 0 { pool.allocate_bulk_with_prefetch(&[self.chunk]).ok().and_then(|mut v| v.pop()) }
+                else if id % 4 == 1 { pool.allocate_with_hint(true).ok() } else { pool.allocate().ok() };
         let mut p = match r { Some(p) => p, None => { self.pending = vec![None, None]; return None; } };
         let blk = Blk { addr: p.as_ptr() as usize, usable: p.size(), mem: true };
-        let _ = p.as_mut_slice().len();
+        self.views(&mut p);
         let ser = self.serial(blk.addr);
         self.pending = vec![Some(ser), Some(p.generation() as i64)];
         self.pending.extend(self.dump());
         self.h.insert(id, p);
         Some(blk)
     }
+    /// allocate_bulk_with_prefetch of n chunk sizes (a size 0 in the request stands for a size that is not the chunk
+    /// size: the whole request must then be refused and everything handed out before goes back to the pool)
+    fn alloc_bulk(&mut self, ids: &[u64], sizes: &[usize]) -> Option<Option<Vec<Blk>>> {
+        let pool = match self.pool.clone() { Some(p) => p, None => return Some(None) };
+        if sizes.len() > 1 { self.unmodelled = true; }
+        let req: Vec<usize> = sizes.iter().map(|&s| if s == 0 { self.chunk + 1 } else { self.chunk }).collect();
+        let wrong = sizes.iter().any(|&s| s == 0);
+        let v = match pool.allocate_bulk_with_prefetch(&req) { Ok(v) => v, Err(_) => { self.pending = vec![None, None]; return Some(None); } };
+        if wrong { self.complaint = Some(format!("allocate_bulk_with_prefetch accepted a size that is not the chunk size {}", self.chunk)); }
+        let mut out = vec![];
+        for (i, mut p) in v.into_iter().enumerate() {
+            out.push(Blk { addr: p.as_ptr() as usize, usable: p.size(), mem: true });
+            self.views(&mut p);
+            let ser = self.serial(p.as_ptr() as usize);
+            self.pending = vec![Some(ser), Some(p.generation() as i64)];
+            if let Some(&id) = ids.get(i) { self.h.insert(id, p); }
+        }
+        self.pending.extend(self.dump());
+        Some(Some(out))
+    }
     fn free(&mut self, id: u64) -> bool {
+        let before = self.pool.as_ref().map(|p| { let s = p.stats(); (s.double_free_detected, s.corruption_detected) });
         if let Some(g) = self.h.remove(&id) {
             self.stale = SecureMemoryPool::verif_chunk_copy(&g).map(|c| (g.as_ptr() as usize, c));
             drop(g);
+        }
+        let after = self.pool.as_ref().map(|p| { let s = p.stats(); (s.double_free_detected, s.corruption_detected) });
+        if let (Some(b), Some(a)) = (before, after) {
+            if a.0 != b.0 { self.complaint = Some("the pool counted the release of a live block as a double free (the block is not returned for reuse)".to_string()); }
+            if a.1 != b.1 { self.complaint = Some("the pool counted the release of a live block as a corrupted chunk".to_string()); }
         }
         self.pending = vec![Some(0)];
         self.pending.extend(self.dump());
@@ -433,10 +787,11 @@ impl Put for SecPut {
     /// a second free of the chunk the most recent guard drop gave back (while it has not been handed out again):
     /// deallocate_internal must report it; Some(accepted)
     fn foreign(&mut self, _kind: u64, _size: usize, _first: Option<usize>, _lowest: Option<usize>) -> Option<bool> {
+        let pool = self.pool.clone()?;
         let live_again = match &self.stale { Some((a, _)) => self.h.values().any(|g| g.as_ptr() as usize == *a), None => return None };
         if live_again { return None; }
         let (_, copy) = self.stale.take().unwrap();
-        let acc = self.pool.verif_deallocate(copy).is_ok();
+        let acc = pool.verif_deallocate(copy).is_ok();
         self.pending = vec![if acc { Some(0) } else { None }];
         self.pending.extend(self.dump());
         Some(acc)
@@ -444,14 +799,44 @@ impl Put for SecPut {
     fn cfg_align(&self) -> usize { self.align }
     fn effective(&self, _size: usize) -> usize { self.chunk }
     fn note(&mut self) { let p = std::mem::take(&mut self.pending); self.rec.push(p); }
+    fn house(&mut self, k: u64, live: &[Live]) -> HouseFx {
+        let Some(pool) = self.pool.clone() else { return HouseFx::default() };
+        match k % 5 {
+            0 => { // integrity checks of the pool and of every guard: nothing is corrupted in a history of legal operations
+                   if let Err(e) = pool.validate() { self.complaint = Some(format!("pool.validate() with {} live blocks: {}", live.len(), e)); }
+                   for l in live { if let Some(g) = self.h.get(&l.id) {
+                       if let Err(e) = g.validate() { self.complaint = Some(format!("validate() of live block #{}: {}", l.id, e)); }
+                       if g.as_ptr() as usize != l.addr || g.size() != l.len || g.as_slice().len() != l.len { self.complaint = Some(format!("SecurePooledPtr of block #{} reports ptr {:?} size {}", l.id, g.as_ptr(), g.size())); } } } }
+            1 => { let st = pool.stats(); let _ = (st.cache_hit_ratio, pool.config().chunk_size);
+                   // verify_zeroed_simd by its definition, on a live (pattern-filled) block and on zeros
+                   if let Some(l) = live.first() { if let Some(g) = self.h.get(&l.id) {
+                       let want = g.as_slice().iter().all(|&b| b == 0);
+                       if pool.verify_zeroed_simd(g.as_slice()).ok() != Some(want) { self.complaint = Some(format!("verify_zeroed_simd on block #{} is not {}", l.id, want)); } } }
+                   if pool.verify_zeroed_simd(&vec![0u8; (k as usize / 5) % 300]).ok() != Some(true) { self.complaint = Some("verify_zeroed_simd(zeros) is not true".to_string()); } }
+            2 => { // clear(): releases the pooled chunks; the live blocks stay live
+                   if let Err(e) = pool.clear() { self.complaint = Some(format!("clear(): {}", e)); }
+                   return HouseFx { forget_all: false, unmodelled: true }; }
+            3 => { let _ = zipora::memory::get_global_secure_pool_stats(); let _ = pool.config().alignment; }
+            _ => { // the pool object goes away while guards are alive: they release their chunks themselves later
+                   self.pool = None; self.stale = None;
+                   return HouseFx { forget_all: false, unmodelled: true }; }
+        }
+        HouseFx::default()
+    }
+    fn complaint(&mut self) -> Option<String> { self.complaint.take() }
 }
 impl Drop for SecPut { fn drop(&mut self) { self.h.clear(); } }
 
 // ---------------- MemoryPool / PooledBuffer / PooledVec ----------------
-enum BasicH { Raw(NonNull<u8>), Buf(PooledBuffer), Vecu(PooledVec<u64>) }
-struct BasicPut { h: HashMap<u64, BasicH>, pool: Option<MemoryPool>, chunk: usize, align: usize, mode: u64,
+#[derive(Clone, Copy)] #[repr(align(64))] #[allow(dead_code)] struct Line64([u8; 64]);
+/// PooledVec over the element types of the "ty" field: 0 u64, 1 u8, 2 [u8; 3], 3 [u64; 200] (1600 bytes: medium pool),
+/// 4 [u8; 70000] (large pool), 5 () (zero-sized), 6 a 64-byte-aligned element, 7 i16
+enum PV { A(PooledVec<u64>), B(PooledVec<u8>), C(PooledVec<[u8; 3]>), D(PooledVec<[u64; 200]>), E(PooledVec<[u8; 70000]>), F(PooledVec<()>), G(PooledVec<Line64>), H(PooledVec<i16>) }
+enum BasicH { Raw(NonNull<u8>), Buf(PooledBuffer), Vecu(PV) }
+struct BasicPut { h: HashMap<u64, BasicH>, pool: Option<MemoryPool>, chunk: usize, align: usize, mode: u64, ty: u64,
                   // model comparison (MemoryPool): chunk address -> serial, observation of the current op, of all ops
-                  serials: HashMap<usize, u64>, next: u64, pending: Vec<Option<i64>>, rec: Vec<Vec<Option<i64>>> }
+                  serials: HashMap<usize, u64>, next: u64, pending: Vec<Option<i64>>, rec: Vec<Vec<Option<i64>>>, complaint: Option<String> }
+fn pv_elem(ty: u64) -> (usize, usize) { match ty { 0 => (8, 8), 1 => (1, 1), 2 => (3, 1), 3 => (1600, 8), 4 => (70000, 1), 5 => (0, 1), 6 => (64, 64), _ => (2, 2) } }
 impl Put for BasicPut {
     fn alloc(&mut self, id: u64, size: usize, _align: usize) -> Option<Blk> {
         match self.mode {
@@ -466,10 +851,24 @@ impl Put for BasicPut {
                    Some(Blk { addr, usable: self.chunk, mem: true }) }
             1 => { let mut b = PooledBuffer::new(size).ok()?;
                    let blk = Blk { addr: b.as_mut_slice().as_mut_ptr() as usize, usable: b.len(), mem: true };
+                   if b.len() != size || b.as_slice().len() != size || b.is_empty() != (size == 0) || b.as_slice().as_ptr() as usize != blk.addr {
+                       self.complaint = Some(format!("PooledBuffer::new({}) reports len {} slice {}", size, b.len(), b.as_slice().len())); }
                    self.h.insert(id, BasicH::Buf(b)); Some(blk) }
-            _ => { let v = PooledVec::<u64>::new().ok()?;
-                   let blk = Blk { addr: v.as_slice().as_ptr() as usize, usable: v.capacity() * 8, mem: true };
-                   self.h.insert(id, BasicH::Vecu(v)); Some(blk) }
+            _ => { // a vector of the case's element type: filled through push up to its capacity (at most 64 KiB of pushes), one
+                   // more push must be refused; the block the oracle tracks is capacity * element size at as_slice()
+                   let (esz, _) = pv_elem(self.ty);
+                   macro_rules! mk { ($var:ident, $t:ty, $val:expr) => {{
+                       let mut v = PooledVec::<$t>::new().ok()?;
+                       let cap = v.capacity();
+                       let n = if esz == 0 { 100 } else { cap.min(65536 / esz.max(1)).max(1).min(cap) };
+                       for i in 0..n { if v.push($val).is_err() { self.complaint = Some(format!("PooledVec of capacity {} refused push #{}", cap, i)); break; } }
+                       if n == cap && esz != 0 && v.push($val).is_ok() { self.complaint = Some(format!("PooledVec of capacity {} accepted push #{}", cap, cap)); }
+                       if esz != 0 && v.len() != n { self.complaint = Some(format!("PooledVec len {} after {} pushes", v.len(), n)); }
+                       if v.is_empty() != (v.len() == 0) || v.as_slice().len() != v.len() { self.complaint = Some("PooledVec len / is_empty / as_slice disagree".to_string()); }
+                       let blk = Blk { addr: v.as_slice().as_ptr() as usize, usable: if esz == 0 { 0 } else { cap * esz }, mem: true };
+                       self.h.insert(id, BasicH::Vecu(PV::$var(v))); Some(blk) }}; }
+                   match self.ty { 0 => mk!(A, u64, 7u64), 1 => mk!(B, u8, 7u8), 2 => mk!(C, [u8; 3], [1, 2, 3]), 3 => mk!(D, [u64; 200], [9u64; 200]),
+                                   4 => mk!(E, [u8; 70000], [5u8; 70000]), 5 => mk!(F, (), ()), 6 => mk!(G, Line64, Line64([3; 64])), _ => mk!(H, i16, -2i16) } }
         }
     }
     fn free(&mut self, id: u64) -> bool {
@@ -483,10 +882,26 @@ impl Put for BasicPut {
                                 ok }
             _ => true }
     }
-    fn cfg_align(&self) -> usize { self.align }
+    fn cfg_align(&self) -> usize { if self.mode == 2 { pv_elem(self.ty).1.max(8) } else { self.align } }
     fn must_refuse(&self, size: usize) -> bool { self.mode == 1 && size > PoolConfig::large().chunk_size }
-    fn effective(&self, size: usize) -> usize { match self.mode { 0 => self.chunk, 1 => size, _ => 8 } }
+    fn effective(&self, size: usize) -> usize { match self.mode { 0 => self.chunk, 1 => size, _ => pv_elem(self.ty).0 } }
     fn note(&mut self) { let p = std::mem::take(&mut self.pending); self.rec.push(p); }
+    fn house(&mut self, k: u64, _live: &[Live]) -> HouseFx {
+        let _ = zipora::memory::pool::get_global_pool_stats();
+        let _ = zipora::memory::pool::init_global_pools(1 + k as usize, 1 << 20);
+        if let Some(pool) = &self.pool {
+            let st = pool.stats();
+            if st.chunks > pool.config().max_chunks { self.complaint = Some(format!("{} chunks pooled, max_chunks = {}", st.chunks, pool.config().max_chunks)); }
+            if k % 2 == 1 {
+                // clear(): releases the pooled chunks; the live ones stay live
+                if let Err(e) = pool.clear() { self.complaint = Some(format!("clear(): {}", e)); }
+                self.serials.clear();
+                return HouseFx { forget_all: false, unmodelled: true };
+            }
+        }
+        HouseFx::default()
+    }
+    fn complaint(&mut self) -> Option<String> { self.complaint.take() }
 }
 impl Drop for BasicPut { fn drop(&mut self) {
     let hs: Vec<u64> = self.h.keys().copied().collect();
@@ -496,12 +911,17 @@ impl Drop for BasicPut { fn drop(&mut self) {
 // ---------------- TieredMemoryAllocator / MemoryMappedAllocator / NUMA / hugepages ----------------
 struct TieredPut { h: HashMap<u64, TieredAllocation>, a: TieredMemoryAllocator, global: bool,
                    // model comparison: chunk address -> (creating pool, serial), observation of the current op, of all ops
-                   chunks: HashMap<usize, (u64, u64)>, serial: u64, pending: Vec<Option<i64>>, rec: Vec<Vec<Option<i64>>> }
+                   chunks: HashMap<usize, (u64, u64)>, serial: u64, pending: Vec<Option<i64>>, rec: Vec<Vec<Option<i64>>>, complaint: Option<String> }
 impl TieredPut {
     /// (alloc_count, dealloc_count, pool_hits, chunks kept) of pool 0 (small) and pools 1..5 (medium classes of this thread)
     fn pool_counts(&self) -> Vec<(u64, u64, u64, usize)> {
         let st = self.a.stats();
         std::iter::once(&st.small_pool_stats).chain(st.medium_pool_stats.iter()).map(|p| (p.alloc_count, p.dealloc_count, p.pool_hits, p.chunks)).collect()
+    }
+    fn views(&mut self, t: &mut TieredAllocation, size: usize) {
+        let addr = t.as_ptr::<u8>() as usize;
+        if t.size() != size || t.as_mut_slice().len() != size || t.as_slice().len() != size || t.as_slice().as_ptr() as usize != addr {
+            self.complaint = Some(format!("TieredAllocation for a request of {} bytes reports size {} slice {}", size, t.size(), t.as_slice().len())); }
     }
 }
 impl Put for TieredPut {
@@ -509,7 +929,7 @@ impl Put for TieredPut {
         if self.global {
             let mut t = zipora::memory::tiered_allocate(size).ok()?;
             let blk = Blk { addr: t.as_ptr::<u8>() as usize, usable: t.size(), mem: true };
-            let _ = t.as_mut_slice().len();
+            self.views(&mut t, size);
             self.h.insert(id, t);
             return Some(blk);
         }
@@ -527,7 +947,7 @@ impl Put for TieredPut {
                                             else { let e = (j as u64, self.serial); self.serial += 1; self.chunks.insert(addr, e); e };
                     vec![Some(tier), Some(j as i64), Some(hit as i64), Some(creator as i64), Some(serial as i64)] } } };
         let blk = Blk { addr, usable: t.size(), mem: true };
-        let _ = t.as_mut_slice().len();
+        self.views(&mut t, size);
         self.h.insert(id, t);
         Some(blk)
     }
@@ -546,23 +966,41 @@ impl Put for TieredPut {
         ok
     }
     fn cfg_align(&self) -> usize { 8 }
+    fn must_refuse(&self, size: usize) -> bool { size > (1usize << 47) }
     fn note(&mut self) { let p = std::mem::take(&mut self.pending); self.rec.push(p); }
+    fn house(&mut self, k: u64, live: &[Live]) -> HouseFx {
+        match k % 3 {
+            0 => { let _ = self.a.get_allocation_pattern(); if let Err(e) = self.a.optimize_for_pattern() { self.complaint = Some(format!("optimize_for_pattern(): {}", e)); } }
+            1 => { let st = if self.global { zipora::memory::get_tiered_stats() } else { self.a.stats() }; let _ = (st.small_allocations, st.mmap_stats.cached_regions); }
+            _ => { for l in live { if let Some(t) = self.h.get(&l.id) { if t.as_ptr::<u8>() as usize != l.addr || t.size() != l.len || t.as_slice().len() != l.len {
+                       self.complaint = Some(format!("TieredAllocation of block #{} reports ptr {:?} size {}", l.id, t.as_ptr::<u8>(), t.size())); } } } }
+        }
+        HouseFx::default()
+    }
+    fn complaint(&mut self) -> Option<String> { self.complaint.take() }
 }
 impl Drop for TieredPut { fn drop(&mut self) { let hs: Vec<u64> = self.h.keys().copied().collect(); for id in hs { self.free(id); } } }
 
-struct MmapPut { h: HashMap<u64, MmapAllocation>, a: MemoryMappedAllocator,
+struct MmapPut { h: HashMap<u64, MmapAllocation>, a: MemoryMappedAllocator, min: usize,
                  // model comparison: region address -> serial, observation of the current op, of all ops
-                 serials: HashMap<usize, u64>, next: u64, pending: Vec<Option<i64>>, rec: Vec<Vec<Option<i64>>> }
+                 serials: HashMap<usize, u64>, next: u64, pending: Vec<Option<i64>>, rec: Vec<Vec<Option<i64>>>, complaint: Option<String> }
 impl Put for MmapPut {
     fn alloc(&mut self, id: u64, size: usize, _align: usize) -> Option<Blk> {
         let hits = self.a.stats().cache_hits;
-        let mut m = match self.a.allocate(size) { Ok(m) => m, Err(_) => { self.pending = vec![None; 3]; return None; } };
+        let should = self.a.should_use_mmap(size);
+        let r = self.a.allocate(size);
+        if !should && r.is_ok() { self.complaint = Some(format!("should_use_mmap({}) = false (below the minimum of {}) but allocate handed out memory", size, self.min)); }
+        let mut m = match r { Ok(m) => m, Err(_) => { self.pending = vec![None; 3]; return None; } };
         let hit = self.a.stats().cache_hits != hits;
         let addr = m.as_mut_ptr() as usize;
         let ser = if hit { self.serials.get(&addr).map(|&v| v as i64).unwrap_or(-1) } else { let n = self.next; self.next += 1; self.serials.insert(addr, n); n as i64 };
         let page = unsafe { libc::sysconf(libc::_SC_PAGESIZE) } as usize;
         // the usable size is the request rounded up to whole pages (the mapping), the guard exposes the requested size
         self.pending = vec![Some(hit as i64), Some(ser), Some((size.div_ceil(page) * page) as i64)];
+        // (only actual_size >= size is demanded here; that it is the page rounding is the model's business)
+        if m.actual_size() < size || m.as_ptr::<u64>() as usize != addr || m.as_slice().len() != size
+           || m.as_mut_slice().len() != size || m.as_slice().as_ptr() as usize != addr {
+            self.complaint = Some(format!("MmapAllocation for {} bytes reports size {} actual_size {} (page {})", size, m.size(), m.actual_size(), page)); }
         let blk = Blk { addr, usable: m.size(), mem: true };
         self.h.insert(id, m);
         Some(blk)
@@ -580,10 +1018,22 @@ impl Put for MmapPut {
     fn cfg_align(&self) -> usize { 4096 }
     fn must_refuse(&self, size: usize) -> bool { size > (1usize << 47) }
     fn note(&mut self) { let p = std::mem::take(&mut self.pending); self.rec.push(p); }
+    fn house(&mut self, k: u64, _live: &[Live]) -> HouseFx {
+        let st = self.a.stats();
+        if st.cache_hits + st.cache_misses < self.next { self.complaint = Some("fewer cache lookups counted than regions mapped".to_string()); }
+        if k % 2 == 1 {
+            // clear_cache(): unmaps the cached regions; the live ones stay mapped
+            if let Err(e) = self.a.clear_cache() { self.complaint = Some(format!("clear_cache(): {}", e)); }
+            if self.a.stats().cached_regions != 0 { self.complaint = Some("regions still cached after clear_cache()".to_string()); }
+            return HouseFx { forget_all: false, unmodelled: true };
+        }
+        HouseFx::default()
+    }
+    fn complaint(&mut self) -> Option<String> { self.complaint.take() }
 }
 impl Drop for MmapPut { fn drop(&mut self) { let hs: Vec<u64> = self.h.keys().copied().collect(); for id in hs { self.free(id); } } }
 
-struct NumaPut { h: HashMap<u64, (NonNull<u8>, usize, usize)>, pools: bool }
+struct NumaPut { h: HashMap<u64, (NonNull<u8>, usize, usize)>, pools: bool, complaint: Option<String> }
 impl Put for NumaPut {
     fn alloc(&mut self, id: u64, size: usize, align: usize) -> Option<Blk> {
         let p = numa_alloc_aligned(size, align, 0).ok()?;
@@ -593,22 +1043,50 @@ impl Put for NumaPut {
     fn free(&mut self, id: u64) -> bool { let (p, s, a) = self.h.remove(&id).unwrap(); numa_dealloc(p, s, a, 0).is_ok() }
     fn cfg_align(&self) -> usize { 64 }
     fn must_refuse(&self, size: usize) -> bool { size > (1usize << 47) }
+    fn house(&mut self, k: u64, _live: &[Live]) -> HouseFx {
+        match k % 3 {
+            0 => { let st = zipora::memory::get_numa_stats(); for p in st.pools.values() { let _ = (p.hit_rate(), p.total_cached()); }
+                   if st.node_count == 0 { self.complaint = Some("get_numa_stats(): no NUMA node".to_string()); } }
+            1 => { let n = zipora::memory::get_optimal_numa_node(); let st = zipora::memory::get_numa_stats();
+                   if n >= st.node_count.max(1) { self.complaint = Some(format!("get_optimal_numa_node() = {} of {} nodes", n, st.node_count)); }
+                   let _ = zipora::memory::set_current_numa_node(0);
+                   if zipora::memory::set_current_numa_node(st.node_count + 5).is_ok() { self.complaint = Some("set_current_numa_node accepted a node that does not exist".to_string()); } }
+            _ => { if self.pools { let _ = init_numa_pools(); } }
+        }
+        HouseFx::default()
+    }
+    fn complaint(&mut self) -> Option<String> { self.complaint.take() }
 }
 impl Drop for NumaPut { fn drop(&mut self) {
     let hs: Vec<u64> = self.h.keys().copied().collect(); for id in hs { self.free(id); }
     if self.pools { let _ = clear_numa_pools(); }
 } }
 
-struct HugePut { h: HashMap<u64, HugePage>, a: HugePageAllocator }
+struct HugePut { h: HashMap<u64, HugePage>, a: HugePageAllocator, complaint: Option<String> }
 impl Put for HugePut {
     fn alloc(&mut self, id: u64, size: usize, _align: usize) -> Option<Blk> {
-        let mut p = self.a.allocate(size).ok()?;
+        // entry points by id: the allocator, HugePage::new_2mb / new_1gb / new with an unsupported page size
+        let should = self.a.should_use_hugepages(size);
+        let r = match id % 4 { 0 => self.a.allocate(size), 1 => HugePage::new_2mb(size), 2 => HugePage::new_1gb(size), _ => HugePage::new(size, 4096) };
+        if id % 4 == 0 && !should && r.is_ok() { self.complaint = Some(format!("should_use_hugepages({}) = false but allocate handed out memory", size)); }
+        if id % 4 == 3 && r.is_ok() { self.complaint = Some("HugePage::new accepted a page size of 4096".to_string()); }
+        let mut p = r.ok()?;
         let blk = Blk { addr: p.as_mut_slice().as_mut_ptr() as usize, usable: p.size(), mem: true };
+        if p.as_slice().len() != p.size() || p.size() != size || blk.addr % p.page_size() != 0 { self.complaint = Some(format!("HugePage for {} bytes reports size {} page_size {}", size, p.size(), p.page_size())); }
         self.h.insert(id, p);
         Some(blk)
     }
     fn free(&mut self, id: u64) -> bool { self.h.remove(&id); true }
     fn cfg_align(&self) -> usize { 4096 }
+    fn must_refuse(&self, size: usize) -> bool { size > (1usize << 47) }
+    fn house(&mut self, _k: u64, live: &[Live]) -> HouseFx {
+        use zipora::memory::hugepage::{get_hugepage_count, get_hugepage_info, hugepages_available, init_hugepage_support, HUGEPAGE_SIZE_1GB, HUGEPAGE_SIZE_2MB};
+        let _ = (get_hugepage_info(HUGEPAGE_SIZE_2MB).is_ok(), get_hugepage_info(HUGEPAGE_SIZE_1GB).is_ok(), init_hugepage_support().is_ok(), hugepages_available());
+        if get_hugepage_info(12345).is_ok() { self.complaint = Some("get_hugepage_info accepted a page size of 12345".to_string()); }
+        if live.is_empty() && self.h.is_empty() && get_hugepage_count() != 0 { self.complaint = Some(format!("get_hugepage_count() = {} with no huge page allocated", get_hugepage_count())); }
+        HouseFx::default()
+    }
+    fn complaint(&mut self) -> Option<String> { self.complaint.take() }
 }
 
 // ------------------------------------------------------------------------------------------------
@@ -621,12 +1099,19 @@ fn ops_of(c: &Value) -> Vec<Vec<u64>> {
 
 fn coq_oz(o: &Option<i128>) -> String { match o { Some(z) if *z < 0 => format!("Some ({})%Z", z), Some(z) => format!("Some {}%Z", z), None => "None".to_string() } }
 
+/// histories of the deterministic families are described by (kind, n, seed, ...) in the case instead of being spelled out
+fn ops_or_big(c: &Value) -> Vec<Vec<u64>> {
+    if c.get("big").is_some() { wide::big_ops(&c["big"]) } else { ops_of(c) }
+}
+
 fn run_case(cx: &mut Ctx, c: &Value, force: bool) {
     std::fs::write(format!("{}/c07_current.json", cx.out), serde_json::to_string(c).unwrap()).ok();
-    let ops = ops_of(c);
+    let ops = ops_or_big(c);
     let cellk = c["cell"].as_str().unwrap_or("").to_string();
     let key = c.to_string();
-    let nontrivial = ops.iter().filter(|o| o.get(0) == Some(&0)).count() >= 2;
+    let nontrivial = ops.iter().filter(|o| matches!(o.get(0), Some(&0) | Some(&6) | Some(&7))).count() >= 2;
+    // big histories are not sent to Coq (term size)
+    let big = c.get("big").is_some();
     match cellk.as_str() {
         "lockfree" => {
             let cell = "LockFreeMemoryPool";
@@ -636,19 +1121,21 @@ fn run_case(cx: &mut Ctx, c: &Value, force: bool) {
             let msize = cfg.memory_size;
             let pool = match guarded(|| LockFreeMemoryPool::new(cfg)) { Ok(Ok(p)) => p, Ok(Err(_)) => { cx.sum.dist("pool_new_refused"); return; }
                 Err(p) => { cx.sum.fail(cell, None, c.clone(), &format!("LockFreeMemoryPool::new panicked: {}", p)); return; } };
-            let mut put = LfPut { pool: Arc::new(pool), msize, h: HashMap::new(), raii: u(c, "raii") != 0, foreign_buf: vec![0u64; 2048] };
-            if let Some(obs) = drive(cx, cell, c, &mut put, &ops) {
-                if cx.room("lockfree", force) {
+            let mut put = LfPut { pool: Arc::new(pool), msize, h: HashMap::new(), guards: HashMap::new(), raii: u(c, "raii") != 0,
+                                  foreign_buf: (0..FOREIGN_WORDS).map(foreign_word).collect(), complaint: None };
+            if let Some(d) = drive(cx, cell, c, &mut put, &ops) {
+                if !d.unmodelled && !big && cx.room("lockfree", force) {
                     // offsets relative to the first successful allocation
-                    let first = ops.iter().zip(obs.iter()).find(|(o, r)| o[0] == 0 && r.is_some()).map(|(_, r)| r.unwrap()).unwrap_or(0);
-                    let mut cops = vec![]; let mut exp = vec![];
-                    for (o, r) in ops.iter().zip(obs.iter()) {
+                    let first = d.ev.iter().find(|e| e.op[0] == 0 && e.res.is_some()).map(|e| e.res.unwrap()).unwrap_or(0);
+                    let mut cops = vec![]; let mut exp = vec![]; let mut has_first = false;
+                    for e in d.ev.iter() {
+                        let (o, r) = (&e.op, &e.res);
                         match o[0] {
-                            0 => { cops.push(format!("OAlloc {}", o[1])); exp.push(coq_oz(&r.map(|a| a - first))); }
+                            0 => { cops.push(format!("OAlloc {}", o[1])); exp.push(coq_oz(&r.map(|a| a - first))); if r.is_some() { has_first = true; } }
                             1 => { cops.push(format!("OFree {}", o[1])); exp.push(coq_oz(r)); }
-                            2 => { let has_first = ops.iter().zip(obs.iter()).take_while(|(oo, _)| !std::ptr::eq(*oo, o)).any(|(oo, rr)| oo[0] == 0 && rr.is_some());
-                                   let off = if o[1] == 1 && has_first { format!("{}%Z", msize) } else if o[1] == 2 && has_first { format!("{}%Z", msize + 8) } else { "(-1)%Z".to_string() };
-                                   cops.push(format!("OForeign {} {}", off, o.get(2).copied().unwrap_or(0).max(1))); exp.push(coq_oz(r)); }
+                            2 => { let off = if o[1] == 1 && has_first { format!("{}%Z", msize) } else if o[1] == 2 && has_first { format!("{}%Z", msize + 8) } else { "(-1)%Z".to_string() };
+                                   let sz = o.get(2).copied().unwrap_or(0).max(1);
+                                   cops.push(format!("OForeign {} {}", off, if o[1] >= 3 { sz.min(FOREIGN_WORDS as u64 * 8) } else { sz })); exp.push(coq_oz(r)); }
                             _ => {}
                         }
                     }
@@ -664,13 +1151,14 @@ fn run_case(cx: &mut Ctx, c: &Value, force: bool) {
             let pool = match guarded(|| FixedCapacityMemoryPool::new(cfg.clone())) { Ok(Ok(p)) => p, Ok(Err(_)) => { cx.sum.dist("pool_new_refused"); return; }
                 Err(p) => { cx.sum.fail(cell, None, c.clone(), &format!("FixedCapacityMemoryPool::new panicked: {}", p)); return; } };
             let (mx, al, nb) = (cfg.max_block_size, cfg.alignment, cfg.total_blocks);
-            let mut put = FcPut { h: HashMap::new(), pool: Box::new(pool), cfg };
-            if let Some(obs) = drive(cx, cell, c, &mut put, &ops) {
+            let mut put = FcPut { h: HashMap::new(), pool: Box::new(pool), cfg, complaint: None };
+            if let Some(d) = drive(cx, cell, c, &mut put, &ops) {
                 // model comparison (pools of at most 2000 blocks keep the Coq terms small)
-                if nb <= 2000 && cx.room("fixedcap", force) {
-                    let first = ops.iter().zip(obs.iter()).find(|(o, r)| o[0] == 0 && r.is_some()).map(|(_, r)| r.unwrap()).unwrap_or(0);
+                if nb <= 2000 && !d.unmodelled && !big && cx.room("fixedcap", force) {
+                    let first = d.ev.iter().find(|e| e.op[0] == 0 && e.res.is_some()).map(|e| e.res.unwrap()).unwrap_or(0);
                     let mut cops = vec![]; let mut exp = vec![];
-                    for (o, r) in ops.iter().zip(obs.iter()) {
+                    for e in d.ev.iter() {
+                        let (o, r) = (&e.op, &e.res);
                         match o[0] {
                             0 => { cops.push(format!("FAlloc {}", o[1])); exp.push(coq_oz(&r.map(|a| a - first))); }
                             1 => { cops.push(format!("FFree {}", o[1])); exp.push(coq_oz(r)); }
@@ -686,21 +1174,23 @@ fn run_case(cx: &mut Ctx, c: &Value, force: bool) {
             cx.sum.eval(cell, &key, nontrivial);
             let cap = u(c, "cap") as usize;
             let mut put = if u(c, "arena") != 0 {
-                match guarded(|| BumpArena::new(cap)) { Ok(Ok(a)) => BumpPut { scopes: vec![], arena: Some(Box::new(a)), plain: None, cap }, _ => { cx.sum.dist("pool_new_refused"); return; } }
+                match guarded(|| BumpArena::new(cap)) { Ok(Ok(a)) => BumpPut { scopes: vec![], vecs: vec![], arena: Some(Box::new(a)), plain: None, cap, complaint: None }, _ => { cx.sum.dist("pool_new_refused"); return; } }
             } else {
-                match guarded(|| BumpAllocator::new(cap)) { Ok(Ok(a)) => BumpPut { scopes: vec![], arena: None, plain: Some(a), cap }, _ => { cx.sum.dist("pool_new_refused"); return; } }
+                match guarded(|| BumpAllocator::new(cap)) { Ok(Ok(a)) => BumpPut { scopes: vec![], vecs: vec![], arena: None, plain: Some(Box::new(a)), cap, complaint: None }, _ => { cx.sum.dist("pool_new_refused"); return; } }
             };
-            if let Some(obs) = drive(cx, cell, c, &mut put, &ops) {
+            if let Some(d) = drive(cx, cell, c, &mut put, &ops) {
                 // model comparison: histories that start with alloc(1,1) (its address is the buffer base) and
                 // whose scopes are not nested and contain only allocations
-                let shape_ok = ops.first().map(|o| o[0] == 0 && o[1] == 1 && o.get(2).copied().unwrap_or(1) <= 1).unwrap_or(false) && obs[0].is_some() && {
-                    let mut d = 0; let mut okk = true;
-                    for o in &ops { match o[0] { 3 => { d += 1; if d > 1 { okk = false; } } 4 => { if d == 0 { okk = false; } else { d -= 1; } } 0 => {} _ => { if d > 0 { okk = false; } } } }
-                    okk && d == 0 };
-                if shape_ok && cx.room("bump", force) {
-                    let base = obs[0].unwrap();
+                let evs = &d.ev;
+                let shape_ok = evs.first().map(|e| e.op[0] == 0 && e.op[1] == 1 && e.op.get(2).copied().unwrap_or(1) <= 1 && e.res.is_some()).unwrap_or(false) && {
+                    let mut dd = 0; let mut okk = true;
+                    for e in evs { match e.op[0] { 3 => { dd += 1; if dd > 1 { okk = false; } } 4 => { if dd == 0 { okk = false; } else { dd -= 1; } } 0 => {} _ => { if dd > 0 { okk = false; } } } }
+                    okk && dd == 0 };
+                if shape_ok && !d.unmodelled && !big && cx.room("bump", force) {
+                    let base = evs[0].res.unwrap();
                     let mut cops: Vec<String> = vec![]; let mut exp = vec![]; let mut inner: Option<Vec<String>> = None;
-                    for (o, r) in ops.iter().zip(obs.iter()) {
+                    for e in evs.iter() {
+                        let (o, r) = (&e.op, &e.res);
                         match o[0] {
                             0 => { let t = format!("({}, {})", o[1], o.get(2).copied().unwrap_or(1).max(1));
                                    exp.push(coq_oz(&r.map(|a| a - base)));
@@ -718,7 +1208,7 @@ fn run_case(cx: &mut Ctx, c: &Value, force: bool) {
         "five" => {
             let level = u(c, "level");
             let sub = u(c, "sublevel");
-            let cfg = five_config(u(c, "preset"), u(c, "align") as usize, u(c, "cap") as usize, u(c, "fast") as usize, u(c, "arena") as usize, u(c, "fixed") as usize);
+            let cfg = five_config(u(c, "preset"), u(c, "align") as usize, u(c, "cap") as usize, u(c, "fast") as usize, u(c, "arena") as usize, u(c, "fixed") as usize, u(c, "flags"));
             let cfg2 = cfg.clone();
             // the member of the family the case exercises (for AdaptiveFiveLevelPool::new it depends on the machine,
             // so it is read back from current_level() below)
@@ -761,20 +1251,28 @@ fn run_case(cx: &mut Ctx, c: &Value, force: bool) {
             let alias = five_tl_alias_class(is_tl, &cfg, &ops);
             let direct_fixed = matches!(&p, Five::L5(_));
             let arena_size = cfg.arena_size;
-            let mut put = FivePut { p, cfg, cap, h: HashMap::new(), alias, stats: vec![] };
-            if let Some(obs) = drive(cx, &cell, c, &mut put, &ops) {
-                if is_tl && cx.room("five", force) {
+            // the cloneable handle of the adaptive pool (levels 2..4), used for every other request when the case asks for it
+            let handle = match (&p, u(c, "handle") != 0) { (Five::Ad(a), true) => {
+                let h = a.get_handle();
+                let want = matches!(a.current_level(), ConcurrencyLevel::MultiThreadMutex | ConcurrencyLevel::MultiThreadLockFree | ConcurrencyLevel::ThreadLocal);
+                if h.is_ok() != want { cx.sum.fail(&cell, None, c.clone(), &format!("get_handle() at level {:?}: {}", a.current_level(), if h.is_ok() { "a handle" } else { "refused" })); return; }
+                h.ok() } _ => None };
+            let mut put = FivePut { p, cfg, cap, h: HashMap::new(), alias, stats: vec![], handle, complaint: None };
+            if let Some(d) = drive(cx, &cell, c, &mut put, &ops) {
+                if is_tl && !d.unmodelled && !big && cx.room("five", force) {
                     // level 4: offsets only (histories in which the two offset spaces collide stop at the oracle: known finding)
                     let mut cops = vec![]; let mut exp = vec![];
-                    for (o, r) in ops.iter().zip(obs.iter()) {
+                    for e in d.ev.iter() {
+                        let (o, r) = (&e.op, &e.res);
                         match o[0] { 0 => cops.push(format!("A5 {}", o[1])), 1 => cops.push(format!("F5 {}", o[1])), _ => continue }
                         exp.push(coq_oz(r));
                     }
                     cx.shards.push(format!("X5T {} {} true [{}] [{}]", mcfg, arena_size, cops.join("; "), exp.join("; ")), c.clone());
                 }
-                if modelled && put.stats.len() == ops.len() && cx.room("five", force) {
+                if modelled && !d.unmodelled && !big && put.stats.len() == d.ev.len() && cx.room("five", force) {
                     let mut cops = vec![]; let mut exp = vec![];
-                    for ((o, r), st) in ops.iter().zip(obs.iter()).zip(put.stats.iter()) {
+                    for (e, st) in d.ev.iter().zip(put.stats.iter()) {
+                        let (o, r) = (&e.op, &e.res);
                         match o[0] { 0 => cops.push(format!("A5 {}", o[1])), 1 => cops.push(format!("F5 {}", o[1])), _ => continue }
                         exp.push(coq_oz(r));
                         exp.push(format!("Some {}%Z", st.0)); exp.push(format!("Some {}%Z", st.1));
@@ -791,16 +1289,24 @@ fn run_case(cx: &mut Ctx, c: &Value, force: bool) {
             if u(c, "arena") != 0 { cfg.arena_size = u(c, "arena") as usize; }
             if u(c, "cached") != 0 { cfg.max_cached_chunks = u(c, "cached") as usize; }
             if u(c, "nosecure") != 0 { cfg.use_secure_memory = false; }
+            // fields no preset varies: statistics off, a synchronisation threshold that triggers at (nearly) every free, one thread
+            let tf = u(c, "tflags");
+            if tf & 1 != 0 { cfg.enable_stats = !cfg.enable_stats; }
+            if tf & 2 != 0 { cfg.sync_threshold = (tf >> 8) as isize % 64; }
+            if tf & 4 != 0 { cfg.max_threads = 1; }
             let (arena, maxc) = (cfg.arena_size, cfg.max_cached_chunks);
-            let pool = match guarded(|| ThreadLocalMemoryPool::new(cfg)) { Ok(Ok(p)) => p, _ => { cx.sum.dist("pool_new_refused"); return; } };
+            let two = u(c, "pools") == 2;
+            let pool = match guarded(|| ThreadLocalMemoryPool::new(cfg.clone())) { Ok(Ok(p)) => p, _ => { cx.sum.dist("pool_new_refused"); return; } };
+            let pool2 = if two { match guarded(|| ThreadLocalMemoryPool::new(cfg)) { Ok(Ok(p)) => Some(p), _ => None } } else { None };
             pool.clear_caches();
-            let mut put = TlPut { h: HashMap::new(), pool };
-            if let Some(obs) = drive(cx, cell, c, &mut put, &ops) {
-                if cx.room("threadlocal", force) {
+            let mut put = TlPut { h: HashMap::new(), pool, pool2, complaint: None };
+            if let Some(d) = drive(cx, cell, c, &mut put, &ops) {
+                if !d.unmodelled && !big && cx.room("threadlocal", force) {
                     // an address is (arena, offset): arenas in order of first appearance, the first block of a new arena is its base
                     let mut bases: Vec<usize> = vec![];
                     let mut cops = vec![]; let mut exp = vec![];
-                    for (o, r) in ops.iter().zip(obs.iter()) {
+                    for e in d.ev.iter() {
+                        let (o, r) = (&e.op, &e.res);
                         match o[0] {
                             0 => { cops.push(format!("TA {}", o[1]));
                                    match r { Some(a) => { let a = *a as usize;
@@ -818,22 +1324,23 @@ fn run_case(cx: &mut Ctx, c: &Value, force: bool) {
         "secure" => {
             let cell = "SecureMemoryPool";
             cx.sum.eval(cell, &key, nontrivial);
-            let cfg = match u(c, "preset") { 1 => SecurePoolConfig::small_secure(), 2 => SecurePoolConfig::medium_secure(), 3 => SecurePoolConfig::large_secure(),
-                _ => SecurePoolConfig::new(u(c, "chunk") as usize, u(c, "maxchunks") as usize, u(c, "align") as usize).with_local_cache_size(u(c, "lcache") as usize).with_zero_on_alloc(u(c, "flags") & 1 != 0) };
+            let cfg = sec_config(c);
             let (chunk, align, lcache) = (cfg.chunk_size, cfg.alignment, cfg.local_cache_size);
             let pool = match guarded(|| SecureMemoryPool::new(cfg)) { Ok(Ok(p)) => p, _ => { cx.sum.dist("pool_new_refused"); return; } };
-            let mut put = SecPut { h: HashMap::new(), pool: pool.clone(), chunk, align, bulk: u(c, "flags") & 2 != 0, serials: HashMap::new(), pending: vec![], rec: vec![], stale: None };
-            if drive(cx, cell, c, &mut put, &ops).is_some() {
-                if put.rec.len() == ops.len() && cx.room("secure", force) {
+            let mut put = SecPut { h: HashMap::new(), pool: Some(pool), chunk, align, bulk: u(c, "flags") & 2 != 0, serials: HashMap::new(), pending: vec![], rec: vec![], stale: None,
+                                   unmodelled: false, complaint: None };
+            if let Some(d) = drive(cx, cell, c, &mut put, &ops) {
+                if !d.unmodelled && !put.unmodelled && !big && put.rec.len() == d.ev.len() && cx.room("secure", force) {
                     let mut cops = vec![]; let mut exp: Vec<String> = vec![];
-                    for (o, r) in ops.iter().zip(put.rec.iter()) {
-                        match o[0] { 0 => cops.push("SAl".to_string()), 1 => cops.push(format!("SFr {}", o[1])), 2 => cops.push("SDbl".to_string()), _ => continue }
+                    for (e, r) in d.ev.iter().zip(put.rec.iter()) {
+                        match e.op[0] { 0 => cops.push("SAl".to_string()), 1 => cops.push(format!("SFr {}", e.op[1])), 2 => cops.push("SDbl".to_string()), _ => continue }
                         for x in r { exp.push(coq_oz(&x.map(|v| v as i128))); }
                     }
                     cx.shards.push(format!("XSec {} [{}] [{}]", lcache, cops.join("; "), exp.join("; ")), c.clone());
                 }
+                let pool = put.pool.clone();
                 drop(put);
-                if let Err(e) = pool.validate() { cx.sum.fail(cell, None, c.clone(), &format!("pool.validate() after the history: {}", e)); }
+                if let Some(pool) = pool { if let Err(e) = pool.validate() { cx.sum.fail(cell, None, c.clone(), &format!("pool.validate() after the history: {}", e)); } }
             }
         }
         "basic" => {
@@ -848,36 +1355,43 @@ fn run_case(cx: &mut Ctx, c: &Value, force: bool) {
             let (chunk, align) = match &pool { Some(p) => (p.config().chunk_size, p.config().alignment), None => (chunk, 8) };
             let maxc = pool.as_ref().map(|p| p.config().max_chunks).unwrap_or(0);
             if mode != 0 { cx.sum.cell_status(cell, "S-only"); }
-            let mut put = BasicPut { h: HashMap::new(), pool, chunk, align, mode, serials: HashMap::new(), next: 0, pending: vec![], rec: vec![] };
-            if drive(cx, cell, c, &mut put, &ops).is_some() && mode == 0 && put.rec.len() == ops.len() && cx.room("mempool", force) {
+            let mut put = BasicPut { h: HashMap::new(), pool, chunk, align, mode, ty: u(c, "ty"), serials: HashMap::new(), next: 0, pending: vec![], rec: vec![], complaint: None };
+            if let Some(d) = drive(cx, cell, c, &mut put, &ops) { if mode == 0 && !d.unmodelled && !big && put.rec.len() == d.ev.len() && cx.room("mempool", force) {
                 let mut cops = vec![]; let mut exp: Vec<String> = vec![];
-                for (o, r) in ops.iter().zip(put.rec.iter()) {
-                    match o[0] { 0 => cops.push("MAl".to_string()), 1 => cops.push(format!("MFr {}", o[1])), _ => continue }
+                for (e, r) in d.ev.iter().zip(put.rec.iter()) {
+                    match e.op[0] { 0 => cops.push("MAl".to_string()), 1 => cops.push(format!("MFr {}", e.op[1])), _ => continue }
                     for x in r { exp.push(coq_oz(&x.map(|v| v as i128))); }
                 }
                 cx.shards.push(format!("XMp {} [{}] [{}]", maxc, cops.join("; "), exp.join("; ")), c.clone());
-            }
+            } }
         }
         "tiered" => {
             let cell = "TieredMemoryAllocator";
             cx.sum.eval(cell, &key, nontrivial);
             let f = u(c, "flags");
-            let cfg = if u(c, "preset") == 1 { TieredConfig::default() } else {
+            let mut cfg = if u(c, "preset") == 1 { TieredConfig::default() } else {
                 TieredConfig { enable_small_pools: f & 1 != 0, enable_medium_pools: f & 2 != 0, enable_mmap_large: f & 4 != 0, enable_hugepages: f & 8 != 0, ..TieredConfig::default() } };
+            // the two threshold fields (absent / 0 = the defaults 16 KiB and 2 MiB)
+            if u(c, "mmapthr") != 0 { cfg.mmap_threshold = u(c, "mmapthr") as usize; }
+            if u(c, "hugethr") != 0 { cfg.hugepage_threshold = u(c, "hugethr") as usize; }
             let mcfg = format!("(mkTC {} {} {} {} {} {} false)", coq_bool(cfg.enable_small_pools), coq_bool(cfg.enable_medium_pools), coq_bool(cfg.enable_mmap_large),
                                coq_bool(cfg.enable_hugepages), cfg.mmap_threshold, cfg.hugepage_threshold);
-            let a = match guarded(|| TieredMemoryAllocator::new(cfg)) { Ok(Ok(a)) => a, _ => { cx.sum.dist("pool_new_refused"); return; } };
+            // preset 3: the convenience constructor TieredMemoryAllocator::default()
+            let via_default = u(c, "preset") == 3;
+            let a = match guarded(|| if via_default { TieredMemoryAllocator::default() } else { TieredMemoryAllocator::new(cfg) }) { Ok(Ok(a)) => a, _ => { cx.sum.dist("pool_new_refused"); return; } };
+            let mcfg = if via_default { let d = TieredConfig::default(); format!("(mkTC {} {} {} {} {} {} false)", coq_bool(d.enable_small_pools), coq_bool(d.enable_medium_pools), coq_bool(d.enable_mmap_large),
+                               coq_bool(d.enable_hugepages), d.mmap_threshold, d.hugepage_threshold) } else { mcfg };
             let global = u(c, "preset") == 2;
-            let mut put = TieredPut { h: HashMap::new(), a, global, chunks: HashMap::new(), serial: 0, pending: vec![], rec: vec![] };
-            if drive(cx, cell, c, &mut put, &ops).is_some() {
+            let mut put = TieredPut { h: HashMap::new(), a, global, chunks: HashMap::new(), serial: 0, pending: vec![], rec: vec![], complaint: None };
+            if let Some(d) = drive(cx, cell, c, &mut put, &ops) {
                 // model comparison: allocators of their own (the global one keeps its small pool across cases), on machines
                 // where hugepage requests are refused (the model's t_hp_ok = false), sizes the mmap tier can certainly serve
                 let hp_ok = HugePageAllocator::new().ok().map(|h| h.allocate(2 << 20).is_ok()).unwrap_or(false);
-                let sizes_ok = ops.iter().all(|o| o[0] != 0 || o[1] <= (64 << 20));
-                if !global && !hp_ok && sizes_ok && put.rec.len() == ops.len() && cx.room("tiered", force) {
+                let sizes_ok = d.ev.iter().all(|e| e.op[0] != 0 || e.op[1] <= (64 << 20));
+                if !global && !hp_ok && sizes_ok && !d.unmodelled && !big && put.rec.len() == d.ev.len() && cx.room("tiered", force) {
                     let mut cops = vec![]; let mut exp: Vec<String> = vec![];
-                    for (o, r) in ops.iter().zip(put.rec.iter()) {
-                        match o[0] { 0 => cops.push(format!("TAl {}", o[1])), 1 => cops.push(format!("TFr {}", o[1])), _ => continue }
+                    for (e, r) in d.ev.iter().zip(put.rec.iter()) {
+                        match e.op[0] { 0 => cops.push(format!("TAl {}", e.op[1])), 1 => cops.push(format!("TFr {}", e.op[1])), _ => continue }
                         for x in r { exp.push(coq_oz(&x.map(|v| v as i128))); }
                     }
                     cx.shards.push(format!("XTi {} [{}] [{}]", mcfg, cops.join("; "), exp.join("; ")), c.clone());
@@ -887,17 +1401,18 @@ fn run_case(cx: &mut Ctx, c: &Value, force: bool) {
         "mmap" => {
             let cell = "MemoryMappedAllocator";
             cx.sum.eval(cell, &key, nontrivial);
-            let min = u(c, "min") as usize;
-            let mut put = MmapPut { h: HashMap::new(), a: MemoryMappedAllocator::new(min), serials: HashMap::new(), next: 0, pending: vec![], rec: vec![] };
-            if drive(cx, cell, c, &mut put, &ops).is_some() {
+            // min = 0: the convenience constructor MemoryMappedAllocator::default() (16 KiB minimum)
+            let (a, min) = if u(c, "min") == 0 { (MemoryMappedAllocator::default(), 16 * 1024) } else { (MemoryMappedAllocator::new(u(c, "min") as usize), u(c, "min") as usize) };
+            let mut put = MmapPut { h: HashMap::new(), a, min, serials: HashMap::new(), next: 0, pending: vec![], rec: vec![], complaint: None };
+            if let Some(d) = drive(cx, cell, c, &mut put, &ops) {
                 // model comparison: sizes a mapping certainly succeeds for (or whose page rounding overflows)
                 let pg = unsafe { libc::sysconf(libc::_SC_PAGESIZE) } as u64;
-                let sizes_ok = ops.iter().all(|o| o[0] != 0 || o[1] <= (1 << 30) || o[1] > u64::MAX - (pg - 1));
-                if sizes_ok && put.rec.len() == ops.len() && cx.room("mmap", force) {
+                let sizes_ok = d.ev.iter().all(|e| e.op[0] != 0 || e.op[1] <= (1 << 30) || e.op[1] > u64::MAX - (pg - 1));
+                if sizes_ok && !d.unmodelled && !big && put.rec.len() == d.ev.len() && cx.room("mmap", force) {
                     let page = unsafe { libc::sysconf(libc::_SC_PAGESIZE) } as usize;
                     let mut cops = vec![]; let mut exp: Vec<String> = vec![];
-                    for (o, r) in ops.iter().zip(put.rec.iter()) {
-                        match o[0] { 0 => cops.push(format!("MMA {}", o[1])), 1 => cops.push(format!("MMF {}", o[1])), _ => continue }
+                    for (e, r) in d.ev.iter().zip(put.rec.iter()) {
+                        match e.op[0] { 0 => cops.push(format!("MMA {}", e.op[1])), 1 => cops.push(format!("MMF {}", e.op[1])), _ => continue }
                         for x in r { exp.push(coq_oz(&x.map(|v| v as i128))); }
                     }
                     cx.shards.push(format!("XMm {} {} [{}] [{}]", min, page, cops.join("; "), exp.join("; ")), c.clone());
@@ -909,14 +1424,22 @@ fn run_case(cx: &mut Ctx, c: &Value, force: bool) {
             cx.sum.eval(cell, &key, nontrivial); cx.sum.cell_status(cell, "S-only");
             let pools = u(c, "pools") != 0;
             if pools { let _ = init_numa_pools(); }
-            let mut put = NumaPut { h: HashMap::new(), pools };
+            let mut put = NumaPut { h: HashMap::new(), pools, complaint: None };
             drive(cx, cell, c, &mut put, &ops);
         }
         "huge" => {
             let cell = "HugePageAllocator";
             cx.sum.eval(cell, &key, nontrivial); cx.sum.cell_status(cell, "S-only");
-            if let Ok(a) = HugePageAllocator::new() { let mut put = HugePut { h: HashMap::new(), a }; drive(cx, cell, c, &mut put, &ops); }
+            // minsize = 0: HugePageAllocator::new(); otherwise with_config(minsize, page size by the "page" field)
+            let a = if u(c, "minsize") == 0 { if u(c, "page") == 1 { Ok(HugePageAllocator::default()) } else { HugePageAllocator::new() } } else {
+                let page = match u(c, "page") { 0 => 2usize << 20, 1 => 1 << 30, p => p as usize };
+                let r = HugePageAllocator::with_config(u(c, "minsize") as usize, page);
+                if r.is_ok() != (page == 2 << 20 || page == 1 << 30) { cx.sum.fail(cell, None, c.clone(), &format!("HugePageAllocator::with_config(_, {}) {}", page, if r.is_ok() { "accepted" } else { "refused" })); return; }
+                r };
+            if let Ok(a) = a { let mut put = HugePut { h: HashMap::new(), a, complaint: None }; drive(cx, cell, c, &mut put, &ops); }
         }
+        "cvec" => wide::run_cvec(cx, c),
+        "secglobal" => wide::run_secglobal(cx, c),
         _ => {}
     }
 }
@@ -950,15 +1473,29 @@ fn gen_size(r: &mut Rng, classes: &[u64], cap: u64, focus: &[u64], huge: bool) -
     };
     s
 }
+/// the secondary entry points a cell's histories may mix in: number of housekeeping / accessor kinds (op 5), bulk requests
+/// (op 6), requests sized around the reported remaining capacity (op 7), foreign-pointer kinds
+#[derive(Clone, Copy, Default)]
+struct Extra { house: u64, bulk: bool, rel: bool }
 fn gen_ops(r: &mut Rng, n: u64, classes: &[u64], cap: u64, huge: bool, foreign: bool, aligns: &[u64]) -> Vec<Vec<u64>> {
+    gen_ops_x(r, n, classes, cap, huge, foreign, aligns, Extra::default())
+}
+fn gen_ops_x(r: &mut Rng, n: u64, classes: &[u64], cap: u64, huge: bool, foreign: bool, aligns: &[u64], x: Extra) -> Vec<Vec<u64>> {
     let mut focus: Vec<u64> = vec![];
     if r.chance(1, 2) { for _ in 0..r.range(1, 2) { focus.push(*r.pick(classes)); } }
     let mut ops = vec![];
     let free_bias = r.range(2, 6);
     for _ in 0..n {
+        if x.house > 0 && r.chance(1, 9) { ops.push(vec![5, r.below(x.house * 6)]); continue; }
+        if x.bulk && r.chance(1, 14) {
+            // bulk requests below and above the prefetch look-ahead of 8 / 12, some with a size the pool cannot serve
+            let step = if r.chance(1, 2) { 0 } else { *r.pick(&[1u64, 8, 24, 4096]) };
+            let base = if r.chance(1, 8) { *r.pick(&[0u64, 10000, u64::MAX, u64::MAX - 6, 1 << 63]) } else { gen_size(r, classes, cap, &focus, false) };
+            ops.push(vec![6, *r.pick(&[1u64, 2, 3, 8, 9, 10, 13, 17, 40]), base, step]); continue; }
+        if x.rel && r.chance(1, 8) { ops.push(vec![7, r.below(5), *r.pick(aligns)]); continue; }
         match r.below(10) {
-            x if x < free_bias => ops.push(vec![1, r.below(64)]),
-            9 if foreign && r.chance(1, 3) => ops.push(vec![2, r.below(3), gen_size(r, classes, cap, &focus, false)]),
+            v if v < free_bias => ops.push(vec![1, r.below(64)]),
+            9 if foreign && r.chance(1, 3) => ops.push(vec![2, r.below(if x.house > 0 { 5 } else { 3 }), gen_size(r, classes, cap, &focus, false)]),
             _ => ops.push(vec![0, gen_size(r, classes, cap, &focus, huge), *r.pick(aligns)]),
         }
     }
@@ -966,14 +1503,18 @@ fn gen_ops(r: &mut Rng, n: u64, classes: &[u64], cap: u64, huge: bool, foreign: 
 }
 
 fn gen_case(r: &mut Rng, which: u64, bins: &[u64]) -> Value {
+    // a third of the histories mix the secondary entry points (housekeeping / accessors, bulk requests, requests sized
+    // around the reported remaining capacity, non-preset configuration fields) into the allocate / free traffic
+    let wide = r.chance(1, 3);
+    let xx = |house: u64, bulk: bool, rel: bool| if wide { Extra { house, bulk, rel } } else { Extra::default() };
     match which {
         0 => { // lockfree
-            let preset = *r.pick(&[0u64, 0, 0, 0, 0, 0, 1, 3, 2, 4, 4, 4, 5, 6]);
+            let preset = if wide { *r.pick(&[0u64, 4, 5, 6, 7, 8, 9, 10, 11, 8, 11]) } else { *r.pick(&[0u64, 0, 0, 0, 0, 0, 1, 3, 2, 4, 4, 4, 5, 6]) };
             let msize = if preset % 4 == 0 || r.chance(2, 3) { *r.pick(&[256u64, 1024, 4096, 4096, 16384, 65536, 1 << 20]) } else { 0 };
             let cap = if msize == 0 { [16u64 << 20, 64 << 20, 256 << 20, 16 << 20][(preset % 4) as usize] } else { msize };
             let cl = classes_for("lockfree", bins);
             let n = r.range(3, 70);
-            json!({"cell": "lockfree", "preset": preset, "msize": msize, "raii": r.below(2), "ops": gen_ops(r, n, &cl, cap, true, true, &[1])})
+            json!({"cell": "lockfree", "preset": preset, "msize": msize, "raii": r.below(2), "ops": gen_ops_x(r, n, &cl, cap, true, true, &[1], xx(2, true, false))})
         }
         1 => { // fixed capacity
             let preset = *r.pick(&[0u64, 0, 0, 1, 2, 3, 4, 5]);
@@ -985,21 +1526,23 @@ fn gen_case(r: &mut Rng, which: u64, bins: &[u64]) -> Value {
             let cap = match preset { 1 | 5 => 4096, 2 => 1024, 3 => 65536, 4 => 8192, _ => mbs };
             let cl: Vec<u64> = classes_for("", bins).into_iter().filter(|&c| c <= cap).chain([cap, cap / 2]).collect();
             let n = r.range(3, 60);
-            json!({"cell": "fixedcap", "preset": preset, "mbs": mbs, "blocks": blocks, "align": align, "flags": r.below(8), "ops": gen_ops(r, n, &cl, cap, true, false, &[1])})
+            json!({"cell": "fixedcap", "preset": preset, "mbs": mbs, "blocks": blocks, "align": align, "flags": r.below(8), "ops": gen_ops_x(r, n, &cl, cap, true, false, &[1], xx(1, false, true))})
         }
         2 => { // bump
             let cap = *r.pick(&[1u64, 7, 64, 100, 1000, 4096, 4097, 65536, 200000, 1 << 20]);
             let arena = r.below(2);
-            let cl: Vec<u64> = vec![1, 3, 8, 16, 24, 100, 256, 1000, 4096];
+            let cl: Vec<u64> = vec![1, 2, 3, 4, 8, 16, 24, 64, 100, 256, 1000, 4096];
             let aligns = [1u64, 1, 2, 4, 8, 16, 32, 64, 128, 4096, 3, 0];
             let mut ops = vec![vec![0u64, 1, 1]];
             let n = r.range(2, 40);
             let mut depth = 0;
             for _ in 0..n {
-                match r.below(12) {
+                match r.below(if wide { 15 } else { 12 }) {
                     0 if arena == 1 && depth == 0 => { ops.push(vec![3]); depth += 1; }
                     1 if depth > 0 => { ops.push(vec![4]); depth -= 1; }
                     2 if arena == 1 && r.chance(1, 4) => { ops.push(vec![3]); depth += 1; }
+                    12 => { let m = if r.chance(1, 3) { 18 } else { 2 }; ops.push(vec![5, r.below(m)]); }
+                    13 | 14 => ops.push(vec![7, r.below(5), *r.pick(&[1u64, 1, 1, 2, 8, 64])]),
                     _ => ops.push(vec![0, gen_size(r, &cl, cap, &[], true), *r.pick(&aligns)]),
                 }
             }
@@ -1019,63 +1562,74 @@ fn gen_case(r: &mut Rng, which: u64, bins: &[u64]) -> Value {
             let cl: Vec<u64> = (1..=8).map(|k| k * align).chain([fast.saturating_sub(align).max(1), fast, fast + align, 2 * fast]).collect();
             let n = r.range(3, 60);
             json!({"cell": "five", "level": level, "sublevel": r.below(6), "preset": preset, "align": align, "cap": cap, "fast": fast, "arena": arena, "fixed": fixed,
-                   "ops": gen_ops(r, n, &cl, pcap, true, false, &[1])})
+                   "flags": if wide { r.below(1 << 10) } else { 0 }, "handle": 1,
+                   "ops": gen_ops_x(r, n, &cl, pcap, true, false, &[1], xx(1, false, true))})
         }
         4 => { // thread-local pool
-            let preset = *r.pick(&[0u64, 0, 0, 1, 3]);
+            let preset = *r.pick(&[0u64, 0, 0, 1, 3, 2]);
             let arena = if preset == 0 { *r.pick(&[1024u64, 4096, 16384, 65536]) } else { 0 };
             let cap = if arena == 0 { 512 << 10 } else { arena };
             let cl = classes_for("threadlocal", bins);
             let n = r.range(3, 70);
             json!({"cell": "threadlocal", "preset": preset, "arena": arena, "cached": *r.pick(&[0u64, 1, 2, 64]), "nosecure": r.below(2),
-                   "ops": gen_ops(r, n, &cl, cap, false, false, &[1])})
+                   "tflags": if wide { r.below(1 << 14) } else { 0 }, "pools": if wide && r.chance(1, 3) { 2 } else { 1 },
+                   "ops": gen_ops_x(r, n, &cl, cap, false, false, &[1], xx(3, false, false))})
         }
         5 => { // secure pool
             let preset = *r.pick(&[0u64, 0, 1, 2, 3]);
             let n = if preset == 3 { r.range(2, 8) } else { r.range(3, 60) };
             // op 2 = a second free of the chunk the previous guard drop gave back (through the verification hook)
             let mut ops: Vec<Vec<u64>> = vec![];
-            for mut o in gen_ops(r, n, &[8], 8, false, true, &[1]) {
+            for mut o in gen_ops_x(r, n, &[8], 8, false, true, &[1], xx(5, preset != 3, false)) {
                 if o[0] == 2 { o[1] = 0; }
+                if o[0] == 6 { o[1] = o[1].min(if preset == 2 { 13 } else { 17 }); o[2] = if r.chance(1, 5) { 0 } else { 8 }; o[3] = 0; }
                 let was_free = o[0] == 1;
                 ops.push(o);
                 if was_free && r.chance(1, 4) { ops.push(vec![2, 0, 8]); }
             }
-            json!({"cell": "secure", "preset": preset, "chunk": *r.pick(&[1u64, 8, 24, 100, 1024, 4096]), "maxchunks": *r.pick(&[1u64, 4, 100]), "align": *r.pick(&[1u64, 8, 16, 32, 64, 4096]),
-                   "lcache": *r.pick(&[0u64, 1, 2, 64]), "flags": r.below(4), "ops": ops})
+            json!({"cell": "secure", "preset": preset, "chunk": *r.pick(&[1u64, 8, 24, 100, 1024, 4096, 63, 64, 65]), "maxchunks": *r.pick(&[1u64, 4, 100]), "align": *r.pick(&[1u64, 8, 16, 32, 64, 4096]),
+                   "lcache": *r.pick(&[0u64, 1, 2, 64]), "flags": r.below(4), "opts": if wide { r.below(1 << 19) } else { 0 }, "ops": ops})
         }
         6 => { // basic pool + pooled containers
             let mode = *r.pick(&[0u64, 0, 1, 1, 2]);
             let preset = *r.pick(&[0u64, 0, 1, 2, 3]);
             let cl = vec![1u64, 100, 1023, 1024, 1025, 65535, 65536, 65537, 1 << 20, (1 << 20) + 1, 2 << 20];
-            let n = if mode == 1 || preset == 3 { r.range(2, 10) } else { r.range(3, 50) };
-            let mut ops = gen_ops(r, n, &cl, 1 << 20, false, false, &[1]);
-            if mode == 1 { for o in ops.iter_mut() { if o[0] == 0 { o[1] = *r.pick(&cl); } } }
-            json!({"cell": "basic", "mode": mode, "preset": preset, "chunk": *r.pick(&[1u64, 8, 24, 100, 4096]), "maxchunks": *r.pick(&[0u64, 1, 4, 100]), "align": *r.pick(&[1u64, 8, 16, 64, 4096]), "ops": ops})
+            let ty = if mode == 2 { r.below(8) } else { 0 };
+            let n = if mode == 1 || preset == 3 || ty == 4 { r.range(2, 10) } else { r.range(3, 50) };
+            let mut ops = gen_ops_x(r, n, &cl, 1 << 20, false, false, &[1], xx(2, false, false));
+            if mode == 1 { for o in ops.iter_mut() { if o[0] == 0 { o[1] = if r.chance(1, 20) { 0 } else { *r.pick(&cl) }; } } }
+            json!({"cell": "basic", "mode": mode, "ty": ty, "preset": preset, "chunk": *r.pick(&[1u64, 8, 24, 100, 4096]), "maxchunks": *r.pick(&[0u64, 1, 4, 100]), "align": *r.pick(&[1u64, 8, 16, 64, 4096]), "ops": ops})
         }
         7 => { // tiered
             let cl = vec![1u64, 64, 1023, 1024, 1025, 2048, 2049, 4096, 8192, 16383, 16384, 16385, 65536, (2 << 20) - 1, 2 << 20];
             let n = r.range(3, 30);
-            let mut ops = gen_ops(r, n, &cl, 1 << 20, false, false, &[1]);
-            for o in ops.iter_mut() { if o[0] == 0 { o[1] = if r.chance(3, 4) { (*r.pick(&cl) as i64 + *r.pick(&[-1i64, 0, 0, 1])).max(1) as u64 } else { r.range(1, 40000) }; } }
-            json!({"cell": "tiered", "preset": r.below(3), "flags": r.below(16), "ops": ops})
+            let mut ops = gen_ops_x(r, n, &cl, 1 << 20, false, false, &[1], xx(3, false, false));
+            for o in ops.iter_mut() { if o[0] == 0 { o[1] = if wide && r.chance(1, 12) { *r.pick(&[u64::MAX, u64::MAX - (2 << 20) + 2, 1 << 63, (1 << 47) + 1, 0, 1 << 32, (1 << 32) + 1]) }
+                                                       else if r.chance(3, 4) { (*r.pick(&cl) as i64 + *r.pick(&[-1i64, 0, 0, 1])).max(1) as u64 } else { r.range(1, 40000) }; } }
+            json!({"cell": "tiered", "preset": r.below(if wide { 4 } else { 3 }), "flags": r.below(16),
+                   "mmapthr": if wide { *r.pick(&[0u64, 0, 1, 4096, 1025, 65536]) } else { 0 }, "hugethr": if wide { *r.pick(&[0u64, 0, 1 << 20, 4 << 20, 4096]) } else { 0 }, "ops": ops})
         }
-        8 => { // mmap allocator
-            let min = *r.pick(&[1u64, 4096, 16384, 65536]);
-            let cl = vec![min.saturating_sub(1).max(1), min, min + 1, 4095, 4096, 4097, 8192, 16384, 65536, 65537, 1 << 20];
+        8 => { // mmap allocator (min 0 = MemoryMappedAllocator::default())
+            let min = *r.pick(&[1u64, 4096, 16384, 65536, 0]);
+            let m = if min == 0 { 16384 } else { min };
+            let cl = vec![m.saturating_sub(1).max(1), m, m + 1, 4095, 4096, 4097, 8192, 16384, 65536, 65537, 1 << 20];
             let n = r.range(3, 30);
-            let mut ops = gen_ops(r, n, &cl, 1 << 20, false, false, &[1]);
-            for o in ops.iter_mut() { if o[0] == 0 { o[1] = if r.chance(1, 25) { *r.pick(&[u64::MAX, u64::MAX - 4094, u64::MAX - 4095, 1 << 62]) } else { *r.pick(&cl) }; } }
+            let mut ops = gen_ops_x(r, n, &cl, 1 << 20, false, false, &[1], xx(2, false, false));
+            // a focus size: more than four regions of one rounded size are freed (the per-size bound of the region cache)
+            let focus = *r.pick(&cl);
+            for o in ops.iter_mut() { if o[0] == 0 { o[1] = if r.chance(1, 25) { *r.pick(&[u64::MAX, u64::MAX - 4094, u64::MAX - 4095, 1 << 62]) } else if r.chance(1, 2) { focus } else { *r.pick(&cl) }; } }
             json!({"cell": "mmap", "min": min, "ops": ops})
         }
         9 => { // NUMA helpers
             let cl = vec![1u64, 63, 64, 65, 1023, 1024, 1025, 65535, 65536, 100000];
             let n = r.range(3, 40);
-            let mut ops = gen_ops(r, n, &cl, 1 << 20, false, false, &[1, 8, 64, 128, 4096]);
+            let mut ops = gen_ops_x(r, n, &cl, 1 << 20, false, false, &[1, 8, 64, 128, 4096], xx(3, false, false));
             for o in ops.iter_mut() { if o[0] == 0 { o[1] = *r.pick(&cl); } }
             json!({"cell": "numa", "pools": r.below(2), "ops": ops})
         }
-        _ => json!({"cell": "huge", "ops": [[0, *r.pick(&[1u64, 2 << 20, (2 << 20) + 1]), 1], [0, 2 << 20, 1], [1, 0]]}),
+        11 => wide::gen_cvec(r),
+        _ => json!({"cell": "huge", "minsize": *r.pick(&[0u64, 0, 1, 4096, 2 << 20]), "page": *r.pick(&[0u64, 0, 1, 4096, 12345]),
+                    "ops": [[0, *r.pick(&[1u64, 2 << 20, (2 << 20) + 1]), 1], [5, 0], [0, 2 << 20, 1], [0, *r.pick(&[u64::MAX, u64::MAX - (2 << 20) + 2, 1 << 62, 1 << 30]), 1], [0, 4096, 1], [1, 0], [0, 0, 1], [0, 1 << 21, 1]]}),
     }
 }
 
@@ -1089,7 +1643,8 @@ fn read_const_list(file: &str, name: &str) -> Vec<u64> {
     let rest = &src[i..];
     let Some(a) = rest.find("&[") else { return vec![] };
     let Some(b) = rest[a..].find("];") else { return vec![] };
-    rest[a + 2..a + b].split(|c: char| !c.is_ascii_digit()).filter(|s| !s.is_empty()).filter_map(|s| s.parse().ok()).collect()
+    let body: String = rest[a + 2..a + b].lines().map(|l| l.split("//").next().unwrap_or("")).collect::<Vec<_>>().join(" ");
+    body.split(|c: char| !c.is_ascii_digit()).filter(|s| !s.is_empty()).filter_map(|s| s.parse().ok()).collect()
 }
 
 fn generate(cx: &mut Ctx, args: &Args) {
@@ -1109,6 +1664,10 @@ fn generate(cx: &mut Ctx, args: &Args) {
     let bins = cx.impl_bins.clone();
     let rounds = if args.thorough { 4000 } else { 260 };
     let only: Option<u64> = std::env::var("ZV_C07_ONLY").ok().and_then(|s| s.parse().ok());   // development aid
+    // the deterministic breadth families (c07_wide.rs): presets x entry points x internal thresholds
+    if only.is_none() || only == Some(99) {
+        for c in wide::families() { run_case_threaded(cx, &c, false); cx.sum.dist("family_cases"); }
+    }
     for i in 0..rounds {
         // weights: the two modelled pools and the size-class pools get most cases
         for which in [0u64, 0, 0, 1, 2, 2, 3, 3, 4, 5, 6, 7, 8, 9] {
@@ -1119,13 +1678,14 @@ fn generate(cx: &mut Ctx, args: &Args) {
             if i < 1 { cx.sum.sample(json!({"cell": c["cell"], "ops": c["ops"].as_array().map(|a| a.iter().take(6).cloned().collect::<Vec<_>>())})); }
             run_case_threaded(cx, &c, false);
         }
-        if i % 50 == 0 { let c = gen_case(&mut rng, 10, &bins); run_case_threaded(cx, &c, false); }
+        if i % 20 == 0 && only.is_none() { let c = gen_case(&mut rng, 10, &bins); run_case_threaded(cx, &c, false); }
+        if i % 2 == 0 && only.map(|o| o == 11).unwrap_or(true) { let c = gen_case(&mut rng, 11, &bins); run_case_threaded(cx, &c, false); }
     }
 }
 
 fn child(args: &Args) {
     let mut cx = Ctx {
-        sum: Summary::new("C07", "histories of allocate(size[,align]) / free(k-th live block) / free(foreign pointer) / arena scope begin-end, 3..70 ops, per pool type and configuration (presets and small custom capacities so that exhaustion, recycling and arena turnover happen); sizes drawn around every size-class boundary (c-9..c+8), around the fast-bin threshold, around the capacity, and u32/usize extremes; every live block carries a position-dependent pattern checked after every operation; non-trivial = history with at least two allocations"),
+        sum: Summary::new("C07", "histories of allocate(size[,align]) / free(k-th live block) / free(foreign pointer) / arena scope begin-end, 3..70 ops, per pool type and configuration (presets and small custom capacities so that exhaustion, recycling and arena turnover happen); sizes drawn around every size-class boundary (c-9..c+8), around the fast-bin threshold, around the capacity, and u32/usize extremes; every live block carries a position-dependent pattern checked after every operation; a third of the histories also mix in the secondary entry points (bulk requests of 1..40 sizes, housekeeping such as clear / clear_caches / clear_cache / reset / validate / statistics and capacity accessors, RAII guard views, pool handles, typed and slice allocation, requests sized around the reported remaining capacity) and configuration fields no preset sets; 248 deterministic families (presets x internal thresholds: cache bounds 4 / 32 / 64 / 100 / 128, look-ahead 8 / 12, class-table ends, 1 KiB .. 2 MiB tier boundaries, arenas and pools driven to exhaustion, a 4 GiB region) written as (kind, n, size, seed); CacheAlignedVec over seven element types against a Vec shadow; non-trivial = history with at least two allocations"),
         shards: CoqShards::new(HEADER, 150),
         budget: if args.thorough { 9000 } else { 1500 },
         impl_bins: read_impl_bins(),
